@@ -3,11 +3,14 @@
 from __future__ import annotations
 
 import ast
+import typing as t
 
 from .. import astq
 from ..fold import Folder, RegexConst, Unfoldable, single_class
 from ..loader import AnalysisError, ClassInfo, FuncInfo, dotted, is_self_attr, norm, walk_no_nested
 from ..report import Ctx
+from ..guards import Aliases, has as guard_has
+from ..dataflow import bound_in_enclosing_comp
 from ._c05_helpers import (
     Fn,
     GuardEval,
@@ -20,6 +23,9 @@ from ._c05_helpers import (
     header_stores,
     is_empty_literal,
     isinstance_atom,
+    call_args,
+    callee_of,
+    desugar_match,
     method,
     none_test,
     same_binding,
@@ -41,7 +47,12 @@ LEVEL_TEXT = (
     "return of get_app_iter chains Response.close through ClosingIterator, which runs every callback and the wrapped "
     "iterable's own close; Response.close closes the body and runs every registered callback; make_sequence moves the "
     "consumed iterable's close into the callbacks; (R5.7) _clean_status returns (str, int) on every path and is the only "
-    "source of the stored status. It decides these clauses on all paths of the named functions; it does not decide that "
+    "source of the stored status. It decides these clauses on all paths of the named functions, comparing structure by role "
+    "rather than by spelling: branch conditions are evaluated over every status x method (so flipped, split, merged or "
+    "hoisted conditions, conditional expressions, module-level constants and HTTPStatus members read the same), locals "
+    "are followed through their reaching definitions, and one level of private helpers is followed (helpers that "
+    "return the value, helpers that decide the condition, helpers that perform the store; a private helper's parameter "
+    "is judged by what every caller passes). It does not decide that "
     "iri_to_uri emits only ASCII, that _RangeWrapper yields exactly the announced number of bytes, nor exception paths "
     "inside close callbacks."
 )
@@ -63,7 +74,22 @@ READER_WRAPPERS = {"iter", "list", "tuple", "reversed", "sorted"}
 SANITISER = "werkzeug.datastructures.headers._str_header_value"
 
 
+_CTX: list[Ctx] = []
+
+
+def _saw(*fis: FuncInfo) -> None:
+    """helpers the evaluators follow count as analysed functions."""
+    if _CTX:
+        _CTX[-1].saw(*fis)
+
+
 def run(ctx: Ctx) -> None:
+    _CTX[:] = [ctx]
+    n_match = desugar_match(ctx.repo)
+    if n_match:
+        ctx.note(f"{n_match} `match` statement(s) read as the if/elif chain they mean (the CFG builder does not take `match`)")
+    _LIST_ATTR[0] = _storage_attr(ctx)
+    _SAN[0] = _find_sanitiser(ctx)
     for rid, text in {
         "R5.1": "every store into Headers._list stores pairs whose value is _str_header_value(...) or came from the list itself; in _str_header_value every return is dominated by the CR/LF search on the returned binding, whose found edge raises, and the returned binding is a str",
         "R5.2": "get_wsgi_response returns to_wsgi_list() of get_wsgi_headers(environ), which is a Headers copy of self.headers modified only through the Headers interface; to_wsgi_list lists the storage",
@@ -88,8 +114,56 @@ def run(ctx: Ctx) -> None:
 # R5.1 (a): stores into the header list
 
 
+_LIST_ATTR = ["_list"]
+_SAN = [SANITISER]
+
+
+def _find_sanitiser(ctx: Ctx) -> str:
+    """the header-value sanitiser: `_str_header_value`; should that private name be gone, the one private module-level
+    function that Headers.add calls and that tests its argument for characters (regex search / membership)."""
+    repo = ctx.repo
+    if repo.try_func(SANITISER) is not None:
+        return SANITISER
+    hcls = repo.cls("datastructures.headers.Headers")
+    add = hcls.methods.get("add")
+    cands = set()
+    if add is not None:
+        Fa = fn_of(repo, add)
+        # the function whose result is the value of a (key, value) pair that add() builds
+        for tup in walk_no_nested(add.node):
+            if not (isinstance(tup, ast.Tuple) and len(tup.elts) == 2 and isinstance(tup.ctx, ast.Load)):
+                continue
+            tn = Fa.cfg.node_of(tup)
+            if tn is None:
+                continue
+            for v, vn in _expansions(Fa, tn, tup.elts[1]):
+                callee = callee_of(Fa, v)
+                if callee is not None and callee.cls is None and callee.name.startswith("_"):
+                    cands.add(callee.fq)
+    return cands.pop() if len(cands) == 1 else SANITISER
+
+
+def _storage_attr(ctx: Ctx) -> str:
+    """the private attribute that holds the header pairs: what Headers.__init__ binds to an empty list (today `_list`)."""
+    hcls = ctx.repo.cls("datastructures.headers.Headers")
+    init = hcls.methods.get("__init__")
+    found = []
+    if init is not None:
+        empties = set()
+        for n in init.node.body:  # type: ignore[attr-defined]
+            if isinstance(n, (ast.Assign, ast.AnnAssign)) and getattr(n, "value", None) is not None:
+                v = n.value
+                fresh = (is_empty_literal(v) and isinstance(v, (ast.List, ast.Call))) or (isinstance(v, ast.Name) and v.id in empties)
+                for tg in (n.targets if isinstance(n, ast.Assign) else [n.target]):
+                    if isinstance(tg, ast.Name):
+                        (empties.add if fresh else empties.discard)(tg.id)
+                    if fresh and isinstance(tg, ast.Attribute) and astq.is_name(tg.value, "self"):
+                        found.append(tg.attr)
+    return found[0] if len(set(found)) == 1 else "_list"
+
+
 def _is_list_attr(e: ast.AST | None) -> bool:
-    return isinstance(e, ast.Attribute) and e.attr == "_list"
+    return isinstance(e, ast.Attribute) and e.attr == _LIST_ATTR[0]
 
 
 def _denotes_list(F: Fn, at, e: ast.AST, depth: int = 0) -> bool:
@@ -121,6 +195,10 @@ def _existing_src(F: Fn, at, e: ast.AST, depth: int = 0) -> bool:
         return _existing_src(F, at, e.value, depth + 1)
     if isinstance(e, ast.Call) and isinstance(e.func, ast.Name) and e.func.id in READER_WRAPPERS and len(e.args) >= 1:
         return _existing_src(F, at, e.args[0], depth + 1)
+    if isinstance(e, ast.Call) and isinstance(e.func, ast.Name) and e.func.id == "filter" and len(e.args) == 2:
+        return _existing_src(F, at, e.args[1], depth + 1)  # a selection of the pairs
+    if isinstance(e, (ast.GeneratorExp, ast.ListComp)) and len(e.generators) == 1 and isinstance(e.elt, ast.Name) and isinstance(e.generators[0].target, ast.Name) and e.generators[0].target.id == e.elt.id:
+        return _existing_src(F, at, e.generators[0].iter, depth + 1)  # `(p for p in pairs if ...)`
     if isinstance(e, ast.Name):
         bs = bindings(F, at, e)
         return bool(bs) and all(b.kind == "value" and b.path == () and b.expr is not None and b.node is not None and _existing_src(F, b.node, b.expr, depth + 1) for b in bs)
@@ -154,11 +232,74 @@ def _existing_pair(F: Fn, at, e: ast.AST, depth: int = 0) -> bool:
     return False
 
 
+def _call_sites(F: Fn) -> list[tuple[Fn, ast.Call]]:
+    """every call in the package that lands in the function of F (by name first, then resolved)."""
+    fi = F.fi
+    cached = getattr(fi, "_c05_sites", None)
+    if cached is not None:
+        return cached
+    out: list[tuple[Fn, ast.Call]] = []
+    for other in F.repo.all_functions():
+        hits = [c for c in astq.calls(other.node, nested=False)
+                if (isinstance(c.func, ast.Attribute) and c.func.attr == fi.name) or (isinstance(c.func, ast.Name) and c.func.id == fi.name)]
+        if not hits:
+            continue
+        Fo = fn_of(F.repo, other)
+        out += [(Fo, c) for c in hits if callee_of(Fo, c) is fi]
+    fi._c05_sites = out  # type: ignore[attr-defined]
+    return out
+
+
+def _param_from_callers(F: Fn, ident: str, check, depth: int) -> tuple[bool, str]:
+    """the parameter `ident` of a *private* helper is judged by what every caller in the package passes for it."""
+    fi = F.fi
+    if not (fi.name.startswith("_") and not fi.name.startswith("__")) or depth > 10:
+        return False, f"`{ident}` is the raw parameter"
+    sites = _call_sites(F)
+    if not sites:
+        return False, f"`{ident}` is the raw parameter (no caller of the private helper {fi.qualname} found)"
+    tags = set()
+    for Fo, c in sites:
+        a = call_args(fi, c).get(ident)
+        if a is None:
+            return False, f"`{ident}` is the raw parameter ({Fo.fi.qualname} calls {fi.name} without a matching argument)"
+        ok, why = check(Fo, Fo.node(c), a, depth + 2)
+        if not ok:
+            return False, f"parameter `{ident}` of {fi.qualname} <- {Fo.fi.qualname}: {why}"
+        tags.add(why)
+    return True, "/".join(sorted(tags))
+
+
 def _value_ok(F: Fn, at, e: ast.AST, depth: int = 0) -> tuple[bool, str]:
     if depth > 6:
         return False, "provenance chain too deep"
-    if isinstance(e, ast.Call) and F.call_fq(e) == SANITISER:
+    if isinstance(e, ast.Call) and F.call_fq(e) == _SAN[0]:
         return True, "SANITISED"
+    if isinstance(e, ast.Call) and norm(e.func).endswith("cast") and len(e.args) == 2:
+        return _value_ok(F, at, e.args[1], depth + 1)
+    if isinstance(e, ast.NamedExpr):
+        return _value_ok(F, at, e.value, depth + 1)
+    if isinstance(e, ast.IfExp):
+        a = _value_ok(F, at, e.body, depth + 1)
+        b = _value_ok(F, at, e.orelse, depth + 1)
+        return a[0] and b[0], (f"{a[1]}/{b[1]}" if a[0] and b[0] else b[1] if a[0] else a[1])
+    if isinstance(e, ast.Call):
+        # one level of helper extraction: a package helper all of whose returns are sanitised values
+        callee = callee_of(F, e)
+        if callee is not None and callee is not F.fi and not any(isinstance(x, (ast.Yield, ast.YieldFrom)) for x in walk_no_nested(callee.node)):
+            rets = astq.returns_of(callee.node)
+            Fc = fn_of(F.repo, callee)
+            if rets:
+                tags = set()
+                for r in rets:
+                    if r.value is None:
+                        return False, f"{callee.qualname} can return None"
+                    ok, why = _value_ok(Fc, Fc.node(r), r.value, depth + 2)
+                    if not ok:
+                        return False, f"{callee.qualname}: `{norm(r)}`: {why}"
+                    tags.add(why)
+                _saw(callee)
+                return True, "/".join(sorted(tags))
     if isinstance(e, ast.Name):
         bs = bindings(F, at, e)
         if not bs:
@@ -178,7 +319,15 @@ def _value_ok(F: Fn, at, e: ast.AST, depth: int = 0) -> tuple[bool, str]:
             elif b.kind == "value" and b.path == (1,) and b.expr is not None and b.node is not None and _existing_pair(F, b.node, b.expr):
                 tags.add("EXISTING")
             elif b.kind == "param":
-                return False, f"`{e.id}` is the raw parameter"
+                ok, why = _param_from_callers(F, e.id, _value_ok, depth)
+                if not ok:
+                    return False, why
+                tags.add(why)
+            elif b.kind == "value" and len(b.path) == 1 and isinstance(b.expr, (ast.Tuple, ast.List)) and b.path[0] < len(b.expr.elts) and b.node is not None and not any(isinstance(x, ast.Starred) for x in b.expr.elts):
+                ok, why = _value_ok(F, b.node, b.expr.elts[b.path[0]], depth + 1)  # a, b = x, y
+                if not ok:
+                    return False, f"`{e.id}` <- {why}"
+                tags.add(why)
             else:
                 return False, f"`{e.id}` is bound to `{norm(b.expr) if b.expr is not None else b.kind}` (raw)"
         return True, "/".join(sorted(tags))
@@ -194,12 +343,19 @@ def _pair_ok(F: Fn, at, e: ast.AST, depth: int = 0) -> tuple[bool, str]:
         return _value_ok(F, at, e.elts[1], depth + 1)
     if _existing_pair(F, at, e):
         return True, "EXISTING"
+    if isinstance(e, ast.IfExp):
+        a = _pair_ok(F, at, e.body, depth + 1)
+        b_ = _pair_ok(F, at, e.orelse, depth + 1)
+        return a[0] and b_[0], (f"{a[1]}/{b_[1]}" if a[0] and b_[0] else b_[1] if a[0] else a[1])
     if isinstance(e, ast.Name):
         bs = bindings(F, at, e)
-        if bs and all(b.kind == "value" and b.path == () and b.expr is not None and b.node is not None for b in bs):
+        if bs and all((b.kind == "value" and b.path == () and b.expr is not None and b.node is not None) or b.kind == "param" for b in bs):
             tags = set()
             for b in bs:
-                ok, why = _pair_ok(F, b.node, b.expr, depth + 1)
+                if b.kind == "param":
+                    ok, why = _param_from_callers(F, e.id, _pair_ok, depth)
+                else:
+                    ok, why = _pair_ok(F, b.node, b.expr, depth + 1)
                 if not ok:
                     return False, why
                 tags.add(why)
@@ -229,6 +385,49 @@ def _list_ok(F: Fn, at, e: ast.AST, depth: int = 0) -> tuple[bool, str]:
         return _list_ok(F, at, e.args[0], depth + 1)
     if isinstance(e, (ast.ListComp, ast.GeneratorExp)):
         return _pair_ok(F, at, e.elt, depth + 1)
+    if isinstance(e, ast.Call) and isinstance(e.func, ast.Name) and e.func.id == "map" and len(e.args) == 2 and not e.keywords:
+        # map(f, pairs): f is a package helper that returns a (key, sanitised value) pair for whatever it is given
+        fcall = ast.Call(func=e.args[0], args=[ast.Name(id="_item", ctx=ast.Load())], keywords=[])
+        callee = callee_of(F, fcall)
+        if callee is None:
+            return False, f"`{norm(e.args[0])}` is not a function of the package"
+        Fc = fn_of(F.repo, callee)
+        rets = astq.returns_of(callee.node)
+        if not rets:
+            return False, f"{callee.qualname} returns nothing"
+        tags = set()
+        for r in rets:
+            ok, why = _pair_ok(Fc, Fc.node(r), r.value, depth + 2) if r.value is not None else (False, "returns None")
+            if not ok:
+                return False, f"{callee.qualname}: `{norm(r)}`: {why}"
+            tags.add(why)
+        _saw(callee)
+        return True, "/".join(sorted(tags))
+    if isinstance(e, ast.Call) and callee_of(F, e) is not None and callee_of(F, e) is not F.fi:
+        # one level of helper extraction: a package helper that yields / returns the pairs
+        callee = callee_of(F, e)
+        assert callee is not None
+        Fc = fn_of(F.repo, callee)
+        ys = [n for n in walk_no_nested(callee.node) if isinstance(n, (ast.Yield, ast.YieldFrom))]
+        tags = set()
+        if ys:
+            for y in ys:
+                yn = Fc.node(y)
+                ok, why = (_list_ok(Fc, yn, y.value, depth + 2) if isinstance(y, ast.YieldFrom) else _pair_ok(Fc, yn, y.value, depth + 2) if y.value is not None else (False, "bare yield"))
+                if not ok:
+                    return False, f"{callee.qualname}: `{norm(y)}`: {why}"
+                tags.add(why)
+        else:
+            rets = astq.returns_of(callee.node)
+            if not rets:
+                return False, f"{callee.qualname} returns nothing"
+            for r in rets:
+                ok, why = _list_ok(Fc, Fc.node(r), r.value, depth + 2) if r.value is not None else (False, "returns None")
+                if not ok:
+                    return False, f"{callee.qualname}: `{norm(r)}`: {why}"
+                tags.add(why)
+        _saw(callee)
+        return True, "/".join(sorted(tags))
     if isinstance(e, ast.BinOp) and isinstance(e.op, ast.Add):
         a = _list_ok(F, at, e.left, depth + 1)
         b = _list_ok(F, at, e.right, depth + 1)
@@ -357,7 +556,7 @@ def _r51_stores(ctx: Ctx) -> None:
                 if ok2:
                     ok, why = ok2, why2
         ctx.ob("R5.1", label, ok, f"stored {'pair' if kind == 'pair' else 'pair(s)'} `{norm(rhs)[:80]}`: value provenance {why}" + ("" if inside else " (store outside the Headers class)"), fi, site, cons)
-    ctx.floor("R5.1", "stores into Headers._list inside the class", n_in, 9)
+    ctx.floor("R5.1", "stores into Headers._list inside the class", n_in, 4)  # 9 today; duplicated stores may be merged into a helper
     ctx.note(f"R5.1: {n_in} store(s) into _list inside the Headers classes, {n_out} outside; {len(uses)} uses of the list examined")
 
 
@@ -365,10 +564,15 @@ def _r51_stores(ctx: Ctx) -> None:
 # R5.1 (b): the sanitiser
 
 
-def _search_atom(F: Fn, folder: Folder, e: ast.AST):
-    """atom testing a regex on a value -> (method, regex | None, searched expr, label of the 'found' edge)."""
+_SEARCH_NODE: list[t.Any] = [None]
+
+
+def _search_atom(F: Fn, folder: Folder, e: ast.AST, at=None):
+    """atom testing a regex on a value -> (method, regex | None, searched expr, label of the 'found' edge); the match
+    object may have been put into a local first (`m = rx.search(v)` ... `if m:`), then _SEARCH_NODE holds where."""
     found = "T"
     call = e
+    _SEARCH_NODE[0] = None
     if isinstance(e, ast.Compare) and len(e.ops) == 1 and isinstance(e.comparators[0], ast.Constant) and e.comparators[0].value is None:
         if isinstance(e.ops[0], ast.IsNot):
             call, found = e.left, "T"
@@ -376,7 +580,15 @@ def _search_atom(F: Fn, folder: Folder, e: ast.AST):
             call, found = e.left, "F"
         else:
             return None
+    if isinstance(call, ast.NamedExpr):
+        call = call.value
+    if isinstance(call, ast.Name) and at is not None:
+        bs = bindings(F, at, call)
+        if len(bs) == 1 and bs[0].kind == "value" and bs[0].path == () and isinstance(bs[0].expr, ast.Call) and bs[0].node is not None:
+            call = bs[0].expr
+            _SEARCH_NODE[0] = bs[0].node
     if not (isinstance(call, ast.Call) and isinstance(call.func, ast.Attribute) and call.func.attr in ("search", "match", "fullmatch", "findall", "finditer")):
+        _SEARCH_NODE[0] = None
         return None
     recv = call.func.value
     rx = None
@@ -419,6 +631,22 @@ def _str_typed(F: Fn, at, e: ast.AST | None, depth: int = 0) -> tuple[bool, str]
         a = _str_typed(F, at, yes, depth + 1)
         b = _str_typed(F, at, no, depth + 1)
         return a[0] and b[0], f"{a[1]} / {b[1]}"
+    if isinstance(e, ast.Call) and norm(e.func).endswith("cast") and len(e.args) == 2:
+        return _str_typed(F, at, e.args[1], depth + 1)
+    if isinstance(e, ast.Call):
+        callee = callee_of(F, e)
+        if callee is not None and callee is not F.fi:
+            Fc = fn_of(F.repo, callee)
+            rets = astq.returns_of(callee.node)
+            if rets and not any(isinstance(x, (ast.Yield, ast.YieldFrom)) for x in walk_no_nested(callee.node)):
+                whys = []
+                for r in rets:
+                    ok, why = _str_typed(Fc, Fc.node(r), r.value, depth + 2)
+                    if not ok:
+                        return False, f"{callee.qualname}: `{norm(r)}`: {why}"
+                    whys.append(why)
+                _saw(callee)
+                return True, f"{callee.qualname}() -> " + " | ".join(sorted(set(whys)))
     if isinstance(e, ast.Name):
         ds = F.rd.reaching(at, e.id)
         if not ds:
@@ -433,12 +661,25 @@ def _str_typed(F: Fn, at, e: ast.AST | None, depth: int = 0) -> tuple[bool, str]
                     if ia and astq.is_name(ia[0], e.id) and ia[1] == {"str"}:
                         safe.append((t, "T"))
                 if at.id in F.cfg.reach(avoid_nodes=conv, avoid_edges=safe):
-                    return False, f"the unconverted parameter `{e.id}` reaches this point without passing isinstance(.., str)"
-                whys.append("parameter under isinstance(.., str)")
+                    ok, why = _param_from_callers(F, e.id, _str_typed, depth)  # a private helper: judged by its callers
+                    if not ok:
+                        return False, f"the unconverted parameter `{e.id}` reaches this point without passing isinstance(.., str) ({why})"
+                    whys.append(f"parameter, a str at every caller ({why})")
+                else:
+                    whys.append("parameter under isinstance(.., str)")
             elif d.kind in ("assign", "walrus") and d.node is not None:
                 ok, why = _str_typed(F, d.node, d.value, depth + 1)
                 if not ok:
-                    return False, f"`{e.id}` <- {why}"
+                    # not a str by construction: fine if this binding only gets here through isinstance(<name>, str)
+                    safe = []
+                    for t_ in F.cfg.tests():
+                        ia = isinstance_atom(t_.ast) if t_.kind == "test" else None
+                        if ia and astq.is_name(ia[0], e.id) and ia[1] == {"str"}:
+                            safe.append((t_, "T"))
+                    others = [x for x in conv if x is not d.node and x is not at]
+                    if not safe or at.id in F.cfg.reach([s_ for s_, l_ in d.node.succs if l_ != "exc"], avoid_nodes=others, avoid_edges=safe):
+                        return False, f"`{e.id}` <- {why}"
+                    why = f"`{norm(d.value)[:30]}` under isinstance(.., str)"
                 whys.append(why)
             else:
                 return False, f"`{e.id}` is bound by `{d.kind}`"
@@ -446,69 +687,207 @@ def _str_typed(F: Fn, at, e: ast.AST | None, depth: int = 0) -> tuple[bool, str]
     return False, f"`{norm(e)[:50]}` is not a str by construction"
 
 
-def _r51_sanitiser(ctx: Ctx) -> None:
-    repo = ctx.repo
-    san = repo.func(SANITISER)
-    ctx.saw(san)
-    F = fn_of(repo, san)
-    cfg = F.cfg
-    folder = Folder(repo)
-    tests = []
-    for t in cfg.tests():
-        if t.kind != "test":
-            continue
-        a = _search_atom(F, folder, t.ast)
-        if a is not None:
-            tests.append((t, *a))
-    if not tests:
-        raise AnalysisError("_str_header_value: no regular-expression test found (slot)")
-    good = []  # tests that are a sound refusal of CR/LF
-    for t, meth, rx, arg, found in tests:
+def _membership_atom(e: ast.AST):
+    """`"\\n" in value` / `"\\n" not in value` -> (characters looked for, searched expr, label of the 'found' edge)."""
+    if isinstance(e, ast.Compare) and len(e.ops) == 1 and isinstance(e.left, ast.Constant) and isinstance(e.left.value, str) and len(e.left.value) == 1:
+        if isinstance(e.ops[0], ast.In):
+            return {ord(e.left.value)}, e.comparators[0], "T"
+        if isinstance(e.ops[0], ast.NotIn):
+            return {ord(e.left.value)}, e.comparators[0], "F"
+    return None
+
+
+def _char_test(F: Fn, folder: Folder, e: ast.AST, depth: int = 0, at=None):
+    """a condition atom that looks for characters in a value -> (code points looked for, looks anywhere in the value,
+    searched expr, label of the 'found' edge, description); regex tests, membership tests, and calls to a one-expression
+    predicate helper that is such a test on its parameter (mapped back to the argument)."""
+    a = _search_atom(F, folder, e, at)
+    if a is not None:
+        meth, rx, arg, found = a
+        sn = _SEARCH_NODE[0]
         cls: set[int] = set()
         shape = "unfoldable pattern"
         if rx is not None:
             try:
                 cls, (lo, hi) = single_class(rx, 256)
-                shape = f"class of {len(cls)} code point(s), repeat {lo}..{'inf' if hi >= 10**9 else hi}"
+                shape = f"pattern {rx.pattern!r}: class of {len(cls)} code point(s), repeat {lo}..{'inf' if hi >= 10**9 else hi}"
                 if lo != 1:
                     cls = set() if lo > 1 else cls
-            except Unfoldable as e:
-                shape = f"not a single character class ({e})"
-        has = {13, 10} <= cls
-        ctx.ob("R5.1", "the sanitiser's pattern finds CR and LF", has, f"pattern {rx.pattern if rx is not None else None!r}: {shape}; contains CR: {13 in cls}, LF: {10 in cls}", san, t.ast, f"newline class of `{norm(t.ast)}`")
-        srch = meth == "search"
-        ctx.ob("R5.1", "the pattern is applied with search (anywhere in the value)", srch, f"`{norm(t.ast)}` uses .{meth}()", san, t.ast, f"search method in `{norm(arg)}` test")
-        fs = cfg.succ(t, found)
+            except Unfoldable as ex:
+                shape = f"pattern {rx.pattern!r}: not a single character class ({ex})"
+        return cls, meth == "search", arg, found, f"uses .{meth}(); {shape}", True, sn
+    m = _membership_atom(e)
+    if m is not None:
+        return m[0], True, m[1], m[2], "membership test", False, None
+    if isinstance(e, ast.Call) and isinstance(e.func, ast.Attribute) and e.func.attr == "isdisjoint" and len(e.args) == 1 and not e.keywords:
+        # CHARS.isdisjoint(value): true when none of the characters occurs anywhere in the value
+        try:
+            chars = folder.expr(F.fi.module, e.func.value)
+        except AnalysisError:
+            chars = None
+        if isinstance(chars, (set, frozenset, str, tuple, list)) and chars and all(isinstance(c_, str) and len(c_) == 1 for c_ in chars):
+            return {ord(c_) for c_ in chars}, True, e.args[0], "F", "isdisjoint over the characters", False, None
+    if isinstance(e, ast.Call) and isinstance(e.func, ast.Name) and e.func.id == "any" and len(e.args) == 1 and isinstance(e.args[0], (ast.GeneratorExp, ast.ListComp)) and len(e.args[0].generators) == 1:
+        # any(c in value for c in "\r\n")
+        g = e.args[0].generators[0]
+        el = e.args[0].elt
+        if not g.ifs and isinstance(g.target, ast.Name) and isinstance(el, ast.Compare) and len(el.ops) == 1 and isinstance(el.ops[0], ast.In) and astq.is_name(el.left, g.target.id):
+            try:
+                chars = folder.expr(F.fi.module, g.iter)
+            except AnalysisError:
+                chars = None
+            if isinstance(chars, (set, frozenset, str, tuple, list)) and chars and all(isinstance(c_, str) and len(c_) == 1 for c_ in chars):
+                return {ord(c_) for c_ in chars}, True, el.comparators[0], "T", "any(c in value ..) over the characters", False, None
+            # any(ch in "\r\n" for ch in value): every character of the value is looked at
+            try:
+                chars = folder.expr(F.fi.module, el.comparators[0])
+            except AnalysisError:
+                chars = None
+            if isinstance(chars, (set, frozenset, str, tuple, list)) and chars and all(isinstance(c_, str) and len(c_) == 1 for c_ in chars):
+                return {ord(c_) for c_ in chars}, True, g.iter, "T", "any(ch in CHARS for ch in value)", False, None
+    if isinstance(e, ast.Call) and depth < 2:
+        callee = callee_of(F, e)
+        if callee is not None and callee is not F.fi:
+            rets = astq.returns_of(callee.node)
+            if len(rets) == 1 and rets[0].value is not None and len([x for x in callee.node.body if not (isinstance(x, ast.Expr) and isinstance(x.value, ast.Constant))]) == 1:  # type: ignore[attr-defined]
+                Fc = fn_of(F.repo, callee)
+                v, flip = rets[0].value, False
+                while isinstance(v, ast.UnaryOp) and isinstance(v.op, ast.Not):
+                    v, flip = v.operand, not flip
+                if isinstance(v, ast.Call) and isinstance(v.func, ast.Name) and v.func.id == "bool" and len(v.args) == 1:
+                    v = v.args[0]
+                inner = _char_test(Fc, folder, v, depth + 1)
+                amap = call_args(callee, e)
+                if inner is not None and isinstance(inner[2], ast.Name) and inner[2].id in amap:
+                    _saw(callee)
+                    found = inner[3] if not flip else ("F" if inner[3] == "T" else "T")
+                    return inner[0], inner[1], amap[inner[2].id], found, f"{callee.qualname}(): {inner[4]}", inner[5], None
+    return None
+
+
+def _refusals(ctx: Ctx, F: Fn, folder: Folder, report: bool = True) -> list[tuple[t.Any, ast.AST, str, set[int], t.Any]]:
+    """the condition atoms of a function that refuse characters in a value: (test node, searched expr, label of the
+    not-found edge, code points that are refused).  A test only counts when it looks anywhere in the value and its found
+    edge cannot complete normally; the obligations about that are recorded here."""
+    cfg = F.cfg
+    fi = F.fi
+    out = []
+    for tn in cfg.tests():
+        if tn.kind != "test":
+            continue
+        ct = _char_test(F, folder, tn.ast, 0, tn)
+        if ct is None:
+            continue
+        cls, srch, arg, found, shape, is_rx, sn = ct
+        if report and is_rx:
+            ctx.ob("R5.1", "the pattern is applied with search (anywhere in the value)", srch, f"`{norm(tn.ast)}` {shape}", fi, tn.ast, f"search method in `{norm(arg)}` test")
+        fs = cfg.succ(tn, found)
         r = cfg.reach(fs) if fs else set()
         refuses = bool(fs) and cfg.exit.id not in r
         raised = sorted({astq.raised_name(n.ast) or "?" for n in cfg.nodes if n.id in r and isinstance(n.ast, ast.Raise)})
-        ctx.ob("R5.1", "a found CR/LF refuses the value (no normal completion)", refuses, f"found edge `{found}` of `{norm(t.ast)}` reaches the normal exit: {not refuses}; raises {raised}", san, t.ast, "found edge raises")
-        if has and srch and refuses:
-            good.append((t, arg, "F" if found == "T" else "T"))
-    rets = astq.returns_of(san.node)
-    ctx.floor("R5.1", "returns of _str_header_value", len(rets), 1)
-    for r_ in rets:
-        rn = F.node(r_)
-        v = r_.value
-        cons = f"sanitiser return {norm(v) if v is not None else None}"
-        if not isinstance(v, ast.Name):
-            ctx.ob("R5.1", f"`{norm(r_)}` returns a checked value", False, "the returned expression is not a local that passed the CR/LF search (computed at the return, never searched)", san, r_, cons + " checked")
+        if report:
+            ctx.ob("R5.1", "a found CR/LF refuses the value (no normal completion)", refuses, f"found edge `{found}` of `{norm(tn.ast)}` reaches the normal exit: {not refuses}; raises {raised}", fi, tn.ast, "found edge raises")
+        out.append((tn, arg, "F" if found == "T" else "T", cls if srch and refuses else set(), sn or tn))  # an unsound test refuses nothing
+    return out
+
+
+def _checker_params(ctx: Ctx, callee: FuncInfo, folder: Folder) -> dict[str, set[int]]:
+    """parameters of a helper that it refuses CR/LF in: the helper cannot complete normally unless the not-found edges of
+    its searches on the (unrebound) parameter are taken.  parameter -> refused code points."""
+    Fc = fn_of(ctx.repo, callee)
+    out: dict[str, set[int]] = {}
+    tests = _refusals(ctx, Fc, folder)
+    for p in callee.params:
+        mine = [(tn, nf, cls) for tn, arg, nf, cls, sn in tests if astq.is_name(arg, p) and all(d.kind == "param" for d in Fc.rd.reaching(sn, p))]
+        got: set[int] = set()
+        for tn, nf, cls in mine:
+            found = "F" if nf == "T" else "T"
+            # every normal completion passes this test and leaves it through the not-found edge
+            if Fc.cfg.exit.id not in Fc.cfg.reach(avoid_nodes=[tn]) and Fc.cfg.exit.id not in Fc.cfg.reach(Fc.cfg.succ(tn, found)):
+                got |= cls
+        if mine:
+            out[p] = got  # empty: the helper tests the parameter but does not soundly refuse anything
+    return out
+
+
+def _alias_roots(F: Fn, at, v: ast.Name, depth: int = 0) -> list[tuple[str, t.Any]]:
+    """(name, node where it is read) for the locals that v stands for through plain `a = b` bindings."""
+    bs = bindings(F, at, v)
+    if depth < 4 and bs and all(b.kind == "value" and b.path == () and isinstance(b.expr, ast.Name) and b.node is not None for b in bs):
+        out: list[tuple[str, t.Any]] = []
+        for b in bs:
+            out += _alias_roots(F, b.node, b.expr, depth + 1)  # type: ignore[arg-type]
+        return out
+    return [(v.id, at)]
+
+
+def _sanitiser_obs(ctx: Ctx, san: FuncInfo, folder: Folder, depth: int = 0) -> None:
+    repo = ctx.repo
+    ctx.saw(san)
+    F = fn_of(repo, san)
+    cfg = F.cfg
+    good = _refusals(ctx, F, folder)
+    # checks delegated to a helper: `_refuse_newlines(text)` as a statement (or anywhere in an expression)
+    delegated: list[tuple[t.Any, ast.AST, set[int]]] = []
+    for c in astq.calls(san.node, nested=False):
+        callee = callee_of(F, c)
+        if callee is None or callee is san:
             continue
-        dom = [(t, arg, nf) for t, arg, nf in good if isinstance(arg, ast.Name) and arg.id == v.id and cfg.edge_dominates(t, nf, rn) and same_binding(F, t, rn, v.id)]
-        fact = f"dominated by the not-found edge of a CR/LF search on the same binding of `{v.id}`: {bool(dom)}"
-        if not dom:
-            cand = [t for t, arg, nf in good if isinstance(arg, ast.Name) and arg.id == v.id]
-            if cand:
-                t0 = cand[0]
-                nf0 = [nf for t, arg, nf in good if t is t0][0]
-                if not cfg.edge_dominates(t0, nf0, rn):
-                    p = cfg.path(cfg.entry, rn, avoid_edges=[(t0, nf0)])
-                    fact += "; path that skips the search: " + cfg.fmt_path(p or [])
-                else:
-                    fact += f"; `{v.id}` is rebound between the search and the return"
-        ctx.ob("R5.1", f"`{norm(r_)}` returns a checked value", bool(dom), fact, san, r_, cons + " checked")
-        ok, fact = _str_typed(F, rn, v)
-        ctx.ob("R5.1", f"`{norm(r_)}` returns a str", ok, fact, san, r_, cons + " is str")
+        cn = cfg.node_of(c)
+        if cn is None:
+            continue
+        cp = _checker_params(ctx, callee, folder)
+        for p, a in call_args(callee, c).items():
+            if p in cp and isinstance(a, ast.Name):
+                ctx.saw(callee)
+                delegated.append((cn, a, cp[p]))
+    rets = astq.returns_of(san.node)
+    ctx.floor("R5.1", f"returns of {san.name}", len(rets), 1)
+    if not good and not delegated and not any(isinstance(v, ast.Call) and callee_of(F, v) is not None for r_ in rets for v, _ in _expansions(F, F.node(r_), r_.value)):
+        raise AnalysisError(f"{san.name}: no test that refuses CR/LF found, neither in the function nor in a helper it calls (slot)")
+    for r_ in rets:
+        rn0 = F.node(r_)
+        for v, rn in _expansions(F, rn0, r_.value, names=False):
+            cons = f"sanitiser return {norm(v) if v is not None else None}"
+            if isinstance(v, ast.Call) and depth < 2:
+                callee = callee_of(F, v)
+                if callee is not None and callee is not san and not any(isinstance(x, (ast.Yield, ast.YieldFrom)) for x in walk_no_nested(callee.node)):
+                    # the value is produced by a helper: that helper has to be a sanitiser itself
+                    _sanitiser_obs(ctx, callee, folder, depth + 1)
+                    continue
+            if not isinstance(v, ast.Name):
+                ctx.ob("R5.1", f"`{norm(r_)}` returns a checked value", False, "the returned expression is not a local that passed the CR/LF search (computed at the return, never searched)", san, r_, cons + " checked")
+                continue
+            covered: set[int] | None = None
+            for nm, at_ in _alias_roots(F, rn, v):
+                # what is returned may be a plain alias (`result = text`): the search has to be on the value it stands for
+                cov: set[int] = set()
+                for tn, arg, nf, cls, sn in good:
+                    if isinstance(arg, ast.Name) and arg.id == nm and cfg.edge_dominates(tn, nf, rn) and same_binding(F, sn, at_, nm):
+                        cov |= cls
+                for cn, arg, cls in delegated:
+                    if isinstance(arg, ast.Name) and arg.id == nm and cn is not rn and cfg.node_dominates(cn, rn) and same_binding(F, cn, at_, nm):
+                        cov |= cls
+                covered = cov if covered is None else covered & cov
+            covered = covered or set()
+            ok = {13, 10} <= covered
+            fact = f"searches on the same binding of `{v.id}` whose not-found edge dominates the return refuse CR: {13 in covered}, LF: {10 in covered}"
+            if not ok:
+                cand = [(tn, nf) for tn, arg, nf, cls, sn in good if isinstance(arg, ast.Name) and arg.id == v.id]
+                if cand:
+                    t0, nf0 = cand[0]
+                    if not cfg.edge_dominates(t0, nf0, rn):
+                        p_ = cfg.path(cfg.entry, rn, avoid_edges=[(t0, nf0)])
+                        fact += "; path that skips the search: " + cfg.fmt_path(p_ or [])
+                    elif not same_binding(F, t0, rn, v.id):
+                        fact += f"; `{v.id}` is rebound between the search and the return"
+            ctx.ob("R5.1", f"`{norm(r_)}` returns a checked value", ok, fact, san, r_, cons + " checked")
+            ok, fact = _str_typed(F, rn, v)
+            ctx.ob("R5.1", f"`{norm(r_)}` returns a str", ok, fact, san, r_, cons + " is str")
+
+
+def _r51_sanitiser(ctx: Ctx) -> None:
+    _sanitiser_obs(ctx, ctx.repo.func(_SAN[0]), Folder(ctx.repo))
 
 
 # =====================================================================
@@ -523,16 +902,51 @@ def _self_call(e: ast.AST | None, name: str) -> bool:
     return isinstance(e, ast.Call) and isinstance(e.func, ast.Attribute) and e.func.attr == name and astq.is_name(e.func.value, "self")
 
 
-def _name_from(F: Fn, at, e: ast.AST | None, pred, path: tuple[int, ...] | None = ()) -> bool:
-    """e satisfies pred directly, or is a local whose every reaching definition binds (at position `path`) an expression satisfying pred."""
+def _name_from(F: Fn, at, e: ast.AST | None, pred, path: tuple[int, ...] | None = (), up=None) -> bool:
+    """e satisfies pred directly, or is a local whose every reaching definition binds (at position `path`) an expression
+    satisfying pred.  `up` = (caller Fn, call node, {parameter: argument}) when F is a helper that was followed: a
+    parameter is then what the caller passed.  pred(expr, node, F) is asked in the function the expression lives in."""
     if e is None:
         return False
-    if pred(e) and path in ((), None):
+    if pred(e, at, F) and path in ((), None):
         return True
+    if path and len(path) == 1 and isinstance(e, ast.Subscript) and isinstance(e.slice, ast.Constant) and e.slice.value == path[0]:
+        return _name_from(F, at, e.value, pred, (), up)  # `triple[i]` instead of unpacking
     if isinstance(e, ast.Name):
         bs = bindings(F, at, e)
-        return bool(bs) and all(b.kind == "value" and b.expr is not None and pred(b.expr) and (path is None or b.path == path) for b in bs)
+        if not bs:
+            return False
+        for b in bs:
+            if b.kind == "param" and up is not None and e.id in up[2] and _name_from(up[0], up[1], up[2][e.id], pred, path, None):
+                continue
+            if b.kind != "value" or b.expr is None or b.node is None:
+                return False
+            if pred(b.expr, b.node, F) and (path is None or b.path == path):
+                continue
+            if b.path == () and not pred(b.expr, b.node, F) and isinstance(b.expr, (ast.Name, ast.Subscript)) and _name_from(F, b.node, b.expr, pred, path, up):
+                continue  # a plain alias
+            if path and b.path == path and isinstance(b.expr, ast.Name) and _name_from(F, b.node, b.expr, pred, (), up):
+                continue  # unpacked from a local that holds the whole result
+            return False
+        return True
     return False
+
+
+def _tuple_items(F: Fn, at, e: ast.AST | None, depth: int = 0) -> list[tuple[ast.AST, t.Any]] | None:
+    """the items of a tuple value with the node each is evaluated in: a display, a concatenation of tuples, or a local
+    holding one; None when the shape is not a tuple put together from displays."""
+    if e is None or depth > 4:
+        return None
+    if isinstance(e, ast.Tuple):
+        return None if any(isinstance(x, ast.Starred) for x in e.elts) else [(x, at) for x in e.elts]
+    if isinstance(e, ast.BinOp) and isinstance(e.op, ast.Add):
+        a, b = _tuple_items(F, at, e.left, depth + 1), _tuple_items(F, at, e.right, depth + 1)
+        return None if a is None or b is None else a + b
+    if isinstance(e, ast.Name):
+        bs = bindings(F, at, e)
+        if len(bs) == 1 and bs[0].kind == "value" and bs[0].path == () and bs[0].node is not None:
+            return _tuple_items(F, bs[0].node, bs[0].expr, depth + 1)
+    return None
 
 
 def _headers_api_only(ctx: Ctx, F: Fn, ident: str, hcls: ClassInfo, depth: int = 0) -> list[str]:
@@ -553,21 +967,20 @@ def _headers_api_only(ctx: Ctx, F: Fn, ident: str, hcls: ClassInfo, depth: int =
             pass
         elif isinstance(p, (ast.Return, ast.Compare, ast.BoolOp, ast.UnaryOp, ast.If, ast.IfExp, ast.While)):
             pass
-        elif isinstance(p, ast.Call) and any(a is n for a in p.args):
+        elif isinstance(p, ast.Call) and (any(a is n for a in p.args) or any(k.value is n for k in p.keywords)):
             fq = F.call_fq(p)
-            callee = repo.try_func(fq) if fq and fq.startswith("werkzeug.") else None
             if fq and fq.startswith("builtins."):
                 continue
+            callee = callee_of(F, p)
             if callee is None or depth >= 2:
                 bad.append(f"passed to `{norm(p.func)}` (not followed)")
                 continue
-            idx = [i for i, a in enumerate(p.args) if a is n][0]
-            params = callee.params
-            if idx >= len(params):
+            inner = [q for q, a in call_args(callee, p).items() if a is n]
+            if not inner:
                 bad.append(f"passed to `{norm(p.func)}` beyond its parameters")
                 continue
             ctx.saw(callee)
-            bad += [f"in {callee.qualname}: {b}" for b in _headers_api_only(ctx, fn_of(repo, callee), params[idx], hcls, depth + 1)]
+            bad += [f"in {callee.qualname}: {b}" for b in _headers_api_only(ctx, fn_of(repo, callee), inner[0], hcls, depth + 1)]
         else:
             bad.append(f"`{norm(p)[:60]}` (alias or unknown use)")
     return bad
@@ -581,33 +994,116 @@ def _r52(ctx: Ctx) -> None:
     F = fn_of(repo, gwr)
     rets = astq.returns_of(gwr.node)
     ctx.floor("R5.2", "returns of get_wsgi_response", len(rets), 1)
+    def triple(Fx: Fn, r: ast.Return, up, depth: int = 0) -> None:
+        def is_wsgi_list(e: ast.AST, at_, F_=None) -> bool:
+            F_ = F_ or Fx
+            return isinstance(e, ast.Call) and isinstance(e.func, ast.Attribute) and e.func.attr == "to_wsgi_list" and not e.args and _name_from(F_, at_, e.func.value, lambda x, _a, _f=None: _self_call(x, "get_wsgi_headers"), (), up if F_ is Fx else None)
+
+        for v, rn in _expansions(Fx, Fx.node(r), r.value):
+            callee = callee_of(Fx, v) if isinstance(v, ast.Call) and depth < 1 else None
+            if callee is not None and callee is not Fx.fi and astq.returns_of(callee.node):
+                # the triple is put together by a helper from what it is handed
+                ctx.saw(callee)
+                Fq = fn_of(repo, callee)
+                for r2 in astq.returns_of(callee.node):
+                    triple(Fq, r2, (Fx, rn, call_args(callee, v)), depth + 1)
+                continue
+            items = _tuple_items(Fx, rn, v)
+            ok = items is not None and len(items) == 3
+            facts = []
+            if ok:
+                (it, n_it), (st, n_st), (hd, n_hd) = items  # type: ignore[misc]
+                h_ok = _name_from(Fx, n_hd, hd, is_wsgi_list, (), up)
+                i_ok = _name_from(Fx, n_it, it, lambda e, _a, _f=None: _self_call(e, "get_app_iter"), (), up)
+                s_ok = _name_from(Fx, n_st, st, lambda e, _a, _f=None: is_self_attr(e, "status"), (), up)
+                facts = [f"headers `{norm(hd)}` is to_wsgi_list() of self.get_wsgi_headers(..): {h_ok}", f"iterable `{norm(it)}` is self.get_app_iter(..): {i_ok}", f"status `{norm(st)}` is self.status: {s_ok}"]
+                ok = h_ok and i_ok and s_ok
+            ctx.ob("R5.2", "get_wsgi_response returns (get_app_iter(..), self.status, get_wsgi_headers(..).to_wsgi_list())", ok, "; ".join(facts) or f"`{norm(r)}` is not a 3-tuple", gwr, r if Fx is F else gwr.node, "wsgi triple")
+
     for r in rets:
-        rn = F.node(r)
-        v = r.value
-        ok = isinstance(v, ast.Tuple) and len(v.elts) == 3
-        facts = []
-        if ok:
-            it, st, hd = v.elts  # type: ignore[union-attr]
-            h_ok = isinstance(hd, ast.Call) and isinstance(hd.func, ast.Attribute) and hd.func.attr == "to_wsgi_list" and not hd.args and _name_from(F, rn, hd.func.value, lambda e: _self_call(e, "get_wsgi_headers"))
-            i_ok = _name_from(F, rn, it, lambda e: _self_call(e, "get_app_iter"))
-            s_ok = is_self_attr(st, "status")
-            facts = [f"headers `{norm(hd)}` is to_wsgi_list() of self.get_wsgi_headers(..): {h_ok}", f"iterable `{norm(it)}` is self.get_app_iter(..): {i_ok}", f"status `{norm(st)}` is self.status: {s_ok}"]
-            ok = h_ok and i_ok and s_ok
-        ctx.ob("R5.2", "get_wsgi_response returns (get_app_iter(..), self.status, get_wsgi_headers(..).to_wsgi_list())", ok, "; ".join(facts) or f"`{norm(r)}` is not a 3-tuple", gwr, r, "wsgi triple")
+        triple(F, r, None)
     # __call__ hands exactly that triple to the server
     call = method(repo, resp, "__call__")
     Fc = fn_of(repo, call)
-    srs = [c for c in astq.calls(call.node, nested=False) if isinstance(c.func, ast.Name) and len(call.params) >= 3 and c.func.id == call.params[2]]
-    ok = len(srs) == 1 and len(srs[0].args) >= 2
+    sr = call.params[2] if len(call.params) >= 3 else None
+    # (call node in __call__, status argument, headers argument): start_response called directly, or through one package
+    # helper that is handed the callable and calls it with two of its own parameters
+    srs: list[tuple[ast.Call, ast.AST, ast.AST]] = []
+    star_first: list[t.Any] = [None]
+    star_call: list[t.Any] = [None]
+    star_at: list[t.Any] = [None]
+    for c in astq.calls(call.node, nested=False):
+        if sr is None:
+            break
+        if isinstance(c.func, ast.Name) and c.func.id == sr and len(c.args) >= 2:
+            srs.append((c, c.args[0], c.args[1]))
+            continue
+        if isinstance(c.func, ast.Name) and c.func.id == sr and len(c.args) == 1 and isinstance(c.args[0], ast.Starred) and isinstance(c.args[0].value, ast.Name):
+            # start_response(*rest) where `first, *rest = <the triple>`: rest is (status, headers)
+            rest = c.args[0].value
+            ds = Fc.rd.reaching(Fc.node(c), rest.id)
+            shapes = []
+            for d in ds:
+                tg = d.stmt.targets[0] if isinstance(d.stmt, ast.Assign) and len(d.stmt.targets) == 1 else None
+                if isinstance(tg, (ast.Tuple, ast.List)) and len(tg.elts) == 2 and isinstance(tg.elts[1], ast.Starred) and astq.is_name(tg.elts[1].value, rest.id) and isinstance(tg.elts[0], ast.Name) and d.node is not None:
+                    shapes.append((d, tg.elts[0].id))
+            if shapes and len(shapes) == len(ds):
+                d0, first = shapes[0]
+                whole = ast.Subscript(value=d0.value, slice=ast.Constant(value=1), ctx=ast.Load())
+                whole2 = ast.Subscript(value=d0.value, slice=ast.Constant(value=2), ctx=ast.Load())
+                star_first[0] = (first, d0)
+                srs.append((c, whole, whole2))
+                star_at[0] = d0.node
+            continue
+        if any(astq.is_name(a, sr) for a in [*c.args, *[k.value for k in c.keywords]]):
+            callee = callee_of(Fc, c)
+            if callee is None:
+                continue
+            if c.args and isinstance(c.args[-1], ast.Starred) and not c.keywords and not any(isinstance(a, ast.Starred) for a in c.args[:-1]):
+                # helper(start_response, *triple): the items of the triple land in the parameters after the explicit ones
+                whole_e = c.args[-1].value
+                ps_ = list(callee.params)
+                if callee.cls is not None and "staticmethod" not in callee.decorators:
+                    ps_ = ps_[1:]
+                k_ = len(c.args) - 1
+                slot = {p_: i_ - k_ for i_, p_ in enumerate(ps_) if k_ <= i_ < k_ + 3}
+                inner_ = [p_ for p_, a in zip(ps_, c.args[:-1]) if astq.is_name(a, sr)]
+                Fq = fn_of(repo, callee)
+                for c2 in astq.calls(callee.node, nested=False):
+                    if isinstance(c2.func, ast.Name) and c2.func.id in inner_ and len(c2.args) >= 2 and all(isinstance(a, ast.Name) and a.id in slot and all(d.kind == "param" for d in Fq.rd.reaching(Fq.node(c2), a.id)) for a in c2.args[:2]):
+                        if Fq.cfg.exit.id not in Fq.cfg.reach(avoid_nodes=[Fq.node(c2)]):
+                            ctx.saw(callee)
+                            srs.append((c, ast.Subscript(value=whole_e, slice=ast.Constant(value=slot[c2.args[0].id]), ctx=ast.Load()), ast.Subscript(value=whole_e, slice=ast.Constant(value=slot[c2.args[1].id]), ctx=ast.Load())))  # type: ignore[attr-defined]
+                            rets_q = astq.returns_of(callee.node)
+                            passes_body = bool(rets_q) and all(isinstance(r.value, ast.Name) and slot.get(r.value.id) == 0 and all(d.kind == "param" for d in Fq.rd.reaching(Fq.node(r), r.value.id)) for r in rets_q)
+                            star_call[0] = (c, passes_body)
+                continue
+            amap = call_args(callee, c)
+            inner = [p_ for p_, a in amap.items() if astq.is_name(a, sr)]
+            Fq = fn_of(repo, callee)
+            for c2 in astq.calls(callee.node, nested=False):
+                if isinstance(c2.func, ast.Name) and c2.func.id in inner and len(c2.args) >= 2 and all(isinstance(a, ast.Name) and a.id in amap and all(d.kind == "param" for d in Fq.rd.reaching(Fq.node(c2), a.id)) for a in c2.args[:2]):
+                    if Fq.cfg.exit.id not in Fq.cfg.reach(avoid_nodes=[Fq.node(c2)]):
+                        ctx.saw(callee)
+                        srs.append((c, amap[c2.args[0].id], amap[c2.args[1].id]))  # type: ignore[attr-defined]
+    ok = len(srs) == 1
     fact = f"{len(srs)} call(s) of the start_response parameter"
     if ok:
-        cn = Fc.node(srs[0])
-        s_ok = _name_from(Fc, cn, srs[0].args[0], lambda e: _self_call(e, "get_wsgi_response"), (1,))
-        h_ok = _name_from(Fc, cn, srs[0].args[1], lambda e: _self_call(e, "get_wsgi_response"), (2,))
-        r_ok = all(_name_from(Fc, Fc.node(r), r.value, lambda e: _self_call(e, "get_wsgi_response"), (0,)) for r in astq.returns_of(call.node)) and bool(astq.returns_of(call.node))
+        c0, a_status, a_headers = srs[0]
+        cn = star_at[0] or Fc.node(c0)
+        s_ok = _name_from(Fc, cn, a_status, lambda e, _a, _f=None: _self_call(e, "get_wsgi_response"), (1,))
+        h_ok = _name_from(Fc, cn, a_headers, lambda e, _a, _f=None: _self_call(e, "get_wsgi_response"), (2,))
+        r_ok = all(_name_from(Fc, Fc.node(r), r.value, lambda e, _a, _f=None: _self_call(e, "get_wsgi_response"), (0,)) for r in astq.returns_of(call.node)) and bool(astq.returns_of(call.node))
+        if not r_ok and star_call[0] is not None:
+            # `return self._helper(start_response, *triple)`: the helper hands back the item that is the iterable
+            c_star, passes_body = star_call[0]
+            r_ok = passes_body and bool(astq.returns_of(call.node)) and all(r.value is c_star for r in astq.returns_of(call.node))
+        if not r_ok and star_first[0] is not None:
+            first, d0 = star_first[0]
+            r_ok = bool(astq.returns_of(call.node)) and all(astq.is_name(r.value, first) and {d.node for d in Fc.rd.reaching(Fc.node(r), first)} == {d0.node} for r in astq.returns_of(call.node))
         fact = f"start_response gets element 1 (status): {s_ok}, element 2 (headers): {h_ok}; the returned iterable is element 0: {r_ok}"
         ok = s_ok and h_ok and r_ok
-    ctx.ob("R5.2", "Response.__call__ passes status and headers of get_wsgi_response to start_response and returns its iterable", ok, fact, call, srs[0] if srs else call.node, "call hands over the triple")
+    ctx.ob("R5.2", "Response.__call__ passes status and headers of get_wsgi_response to start_response and returns its iterable", ok, fact, call, srs[0][0] if srs else call.node, "call hands over the triple")
 
     gwh = method(repo, resp, "get_wsgi_headers")
     Fh = fn_of(repo, gwh)
@@ -615,7 +1111,7 @@ def _r52(ctx: Ctx) -> None:
     ctx.floor("R5.2", "returns of get_wsgi_headers", len(rets), 1)
     hfq = hcls.fq
 
-    def is_copy(e: ast.AST) -> bool:
+    def is_copy(e: ast.AST, _at=None, _f=None) -> bool:
         if isinstance(e, ast.Call) and Fh.call_fq(e) == hfq and len(e.args) == 1 and is_self_attr(e.args[0], "headers"):
             return True
         return isinstance(e, ast.Call) and isinstance(e.func, ast.Attribute) and e.func.attr == "copy" and is_self_attr(e.func.value, "headers")
@@ -633,16 +1129,85 @@ def _r52(ctx: Ctx) -> None:
     it = method(repo, hcls, "__iter__")
     ctx.saw(twl, it)
 
+    def storage(a: ast.AST | None) -> bool:
+        return astq.is_name(a, "self") or is_self_attr(a, _LIST_ATTR[0])
+
     def lists_storage(e: ast.AST | None) -> bool:
+        """a fresh list (or iterator) of exactly the stored pairs, in order."""
         if isinstance(e, ast.Call) and isinstance(e.func, ast.Name) and e.func.id in ("list", "iter") and len(e.args) == 1:
-            a = e.args[0]
-            return astq.is_name(a, "self") or is_self_attr(a, "_list") or lists_storage(a)
+            return storage(e.args[0]) or lists_storage(e.args[0])
+        if isinstance(e, ast.Call) and isinstance(e.func, ast.Attribute) and e.func.attr == "copy" and not e.args and is_self_attr(e.func.value, _LIST_ATTR[0]):
+            return True
+        if isinstance(e, ast.Subscript) and isinstance(e.slice, ast.Slice) and e.slice.lower is None and e.slice.upper is None and e.slice.step is None and is_self_attr(e.value, _LIST_ATTR[0]):
+            return True
+        if isinstance(e, ast.List) and len(e.elts) == 1 and isinstance(e.elts[0], ast.Starred):
+            return storage(e.elts[0].value)
+        if isinstance(e, ast.ListComp) and len(e.generators) == 1 and not e.generators[0].ifs and storage(e.generators[0].iter):
+            tg, el = e.generators[0].target, e.elt
+            if isinstance(tg, ast.Name) and astq.is_name(el, tg.id):
+                return True
+            if isinstance(tg, ast.Tuple) and isinstance(el, ast.Tuple) and [norm(x) for x in tg.elts] == [norm(x) for x in el.elts] and all(isinstance(x, ast.Name) for x in tg.elts):
+                return True
         return False
 
+    Ftw = fn_of(repo, twl)
+
+    def filled_from_storage(r: ast.Return) -> bool:
+        """`rv = []` ... `rv.extend(self)` ... `return rv`: a fresh list that receives the stored pairs once, and nothing else."""
+        v = r.value
+        if not isinstance(v, ast.Name):
+            return False
+        rn = Ftw.node(r)
+        bs = bindings(Ftw, rn, v)
+        if not bs or not all(b.kind == "value" and b.path == () and is_empty_literal(b.expr) and isinstance(b.expr, (ast.List, ast.Call)) for b in bs):
+            return False
+        fills, other = [], []
+        for n in walk_no_nested(twl.node):
+            if isinstance(n, ast.Call) and isinstance(n.func, ast.Attribute) and astq.is_name(n.func.value, v.id):
+                if n.func.attr == "extend" and len(n.args) == 1 and (storage(n.args[0]) or lists_storage(n.args[0])):
+                    fills.append(Ftw.node(n))
+                else:
+                    other.append(n)
+            elif isinstance(n, ast.AugAssign) and astq.is_name(n.target, v.id):
+                if isinstance(n.op, ast.Add) and (storage(n.value) or lists_storage(n.value)):
+                    fills.append(Ftw.node(n))
+                else:
+                    other.append(n)
+        if not fills and len(other) == 1:
+            # `for item in self: rv.append(item)`: one unconditional pass that appends every pair as it is
+            c = other[0]
+            lp = astq.parent(astq.parent(c)) if isinstance(astq.parent(c), ast.Expr) else None
+            if (isinstance(c, ast.Call) and c.func.attr == "append" and len(c.args) == 1 and isinstance(lp, ast.For) and not lp.orelse and len(lp.body) == 1 and (storage(lp.iter) or lists_storage(lp.iter))):
+                tg, a = lp.target, c.args[0]
+                same = (isinstance(tg, ast.Name) and astq.is_name(a, tg.id)) or (isinstance(tg, ast.Tuple) and isinstance(a, ast.Tuple) and [norm(x) for x in tg.elts] == [norm(x) for x in a.elts] and all(isinstance(x, ast.Name) for x in tg.elts))
+                ln = Ftw.cfg.node_of(lp)
+                return bool(same and ln is not None and Ftw.cfg.node_dominates(ln, rn))
+            return False
+        return len(fills) == 1 and not other and fills[0].ast is not None and not any(x.kind == "loop" and Ftw.cfg.edge_dominates(x, "T", fills[0]) for x in Ftw.cfg.nodes) and Ftw.cfg.node_dominates(fills[0], rn)
+
     r1 = astq.returns_of(twl.node)
-    ok1 = bool(r1) and all(isinstance(r.value, ast.Call) and isinstance(r.value.func, ast.Name) and r.value.func.id == "list" and lists_storage(r.value) for r in r1)
+    ok1 = bool(r1) and all(not isinstance(r.value, ast.Call) or not (isinstance(r.value.func, ast.Name) and r.value.func.id == "iter") for r in r1) and all(lists_storage(r.value) or filled_from_storage(r) for r in r1)
     r2 = astq.returns_of(it.node)
-    ok2 = bool(r2) and all(isinstance(r.value, ast.Call) and lists_storage(r.value) and is_self_attr(r.value.args[0], "_list") for r in r2) and not any(isinstance(n, (ast.Yield, ast.YieldFrom)) for n in walk_no_nested(it.node))
+    yields = [n for n in walk_no_nested(it.node) if isinstance(n, (ast.Yield, ast.YieldFrom))]
+    if yields:
+        ok2 = not r2 and len(yields) == 1 and isinstance(yields[0], ast.YieldFrom) and is_self_attr(yields[0].value, _LIST_ATTR[0])
+    else:
+        Fit = fn_of(repo, it)
+
+        def iter_of_storage(v: ast.AST | None, vn) -> bool:
+            """iter(<the list>) / <the list>.__iter__() / iter(<fresh copy of the list>), the list possibly through a local."""
+            if isinstance(v, ast.Call) and isinstance(v.func, ast.Attribute) and v.func.attr == "__iter__" and not v.args:
+                return _self_attr_alias(Fit, vn, v.func.value) == _LIST_ATTR[0]
+            if isinstance(v, ast.Call) and isinstance(v.func, ast.Attribute) and v.func.attr == "__iter__" and astq.is_name(v.func.value, "list") and len(v.args) == 1:
+                return _self_attr_alias(Fit, vn, v.args[0]) == _LIST_ATTR[0]  # list.__iter__(self._list)
+            if isinstance(v, ast.Call) and isinstance(v.func, ast.Name) and v.func.id == "iter" and len(v.args) == 1:
+                a = v.args[0]
+                return _self_attr_alias(Fit, vn, a) == _LIST_ATTR[0] or (lists_storage(a) and not astq.names_in(a) - {"self", "list", "iter"})
+            return False
+
+        ok2 = bool(r2) and all(iter_of_storage(v, vn) for r in r2 for v, vn in _expansions(Fit, Fit.node(r), r.value))
+    via_iter = any(isinstance(x, ast.Name) and x.id == "self" and not isinstance(astq.parent(x), ast.Attribute) for x in walk_no_nested(twl.node))
+    ok2 = ok2 or not via_iter
     ctx.ob("R5.2", "to_wsgi_list lists the stored pairs", ok1 and ok2, f"to_wsgi_list returns list(self): {ok1}; Headers.__iter__ returns iter(self._list): {ok2}", twl, twl.node, "to_wsgi_list is the storage")
 
 
@@ -668,22 +1233,39 @@ def _closing_iterator_arg(F: Fn, e: ast.AST | None) -> tuple[ast.AST | None, ast
     return None
 
 
-def _body_defs(F: Fn, G: GuardEval, s: Sigma, reach: set[int], rn, x: ast.AST) -> list[ast.AST | None]:
-    """the expressions the wrapped iterable `x` can stand for at return node rn under valuation s."""
-    if not isinstance(x, ast.Name):
-        return [x]
-    ds = [d for d in F.rd.reaching(rn, x.id)]
-    out: list[ast.AST | None] = []
-    for d in ds:
-        if d.node is None or d.kind != "assign":
-            out.append(None)
-            continue
-        if d.node.id not in reach:
-            continue
-        others = [o.node for o in ds if o is not d and o.node is not None]
-        if rn.id in G.reach(s, d.node, avoid_nodes=others):
-            out.append(d.value)
-    return out
+def _body_leaves(F: Fn, G: GuardEval, s: Sigma, reach: set[int], at, e: ast.AST | None, depth: int = 0) -> list[ast.AST | None]:
+    """the expressions the served body `e` (evaluated in node at) can stand for under valuation s: conditional expressions
+    are decided by s where s decides them, the ClosingIterator wrapper is stripped, locals are replaced by the bindings
+    that can reach the use under s."""
+    if e is None or depth > 8:
+        return [e]
+    if isinstance(e, ast.IfExp):
+        c = G.truth(e.test, at, s)
+        out: list[ast.AST | None] = []
+        if c is not False:
+            out += _body_leaves(F, G, s, reach, at, e.body, depth + 1)
+        if c is not True:
+            out += _body_leaves(F, G, s, reach, at, e.orelse, depth + 1)
+        return out
+    if isinstance(e, ast.Call) and norm(e.func).endswith("cast") and len(e.args) == 2:
+        return _body_leaves(F, G, s, reach, at, e.args[1], depth + 1)
+    ca = _closing_iterator_arg(F, e)
+    if ca is not None and ca[0] is not None:
+        return _body_leaves(F, G, s, reach, at, ca[0], depth + 1)
+    if isinstance(e, ast.Name):
+        ds = list(F.rd.reaching(at, e.id))
+        out = []
+        for d in ds:
+            if d.node is None or d.kind not in ("assign", "walrus") or d.index is not None:
+                out.append(None)
+                continue
+            if d.node.id not in reach:
+                continue
+            others = [o.node for o in ds if o is not d and o.node is not None]
+            if at.id in G.reach(s, d.node, avoid_nodes=others):
+                out += _body_leaves(F, G, s, reach, d.node, d.value, depth + 1)
+        return out
+    return [e]
 
 
 def _r53(ctx: Ctx) -> None:
@@ -711,9 +1293,7 @@ def _r53(ctx: Ctx) -> None:
                 if rn.id not in reach:
                     continue
                 n += 1
-                ca = _closing_iterator_arg(F, r.value)
-                vals = _body_defs(F, G, s, reach, rn, ca[0]) if ca is not None and ca[0] is not None else [r.value]
-                for v in vals:
+                for v in _body_leaves(F, G, s, reach, rn, r.value):
                     if is_empty_literal(v):
                         all_full = False
                     else:
@@ -730,26 +1310,53 @@ def _r53(ctx: Ctx) -> None:
     gwh = method(repo, resp, "get_wsgi_headers")
     Fh = fn_of(repo, gwh)
     Gh = GuardEval(Fh)
-    if not Gh.evaluable:
-        raise AnalysisError("get_wsgi_headers: no branch atom over the status found (slot)")
     hnames = {r.value.id for r in astq.returns_of(gwh.node) if isinstance(r.value, ast.Name)}
-    stores = [Fh.node(n) for n, h, k, v in header_stores(gwh.node, CL) if isinstance(h, ast.Name) and h.id in hnames]
-    removes = [Fh.node(n) for n, h, k in header_removals(gwh.node, CL) if isinstance(h, ast.Name) and h.id in hnames]
-    ctx.floor("R5.3", "Content-Length stores + removals in get_wsgi_headers", len(stores) + len(removes), 2)
-    ctx.floor("R5.3", "status/method atoms in get_app_iter + get_wsgi_headers", len(G.evaluable) + len(Gh.evaluable), 3)
+    st_sites, rm_sites = _header_sites(Fh, hnames, CL)
+    stores = [Fh.node(x.node) for x in st_sites if not x.via]
+    removes = [Fh.node(x.node) for x in rm_sites if not x.via]
+    ctx.floor("R5.3", "Content-Length stores + removals in get_wsgi_headers", len(st_sites) + len(rm_sites), 2)
     cfg = Fh.cfg
+    # stores / removals that live in a helper the headers object is handed to: the call statement stands for them, under
+    # the conditions the helper itself imposes (evaluated with the arguments bound)
+    by_call: dict[int, tuple[t.Any, ast.Call, list[_Site], list[_Site]]] = {}
+    for x, is_store in [*[(x, True) for x in st_sites], *[(x, False) for x in rm_sites]]:
+        if x.via:
+            c = x.via[0][1]
+            ent = by_call.setdefault(id(c), (Fh.node(c), c, [], []))
+            (ent[2] if is_store else ent[3]).append(x)
+
+    n_atoms = len(Gh.evaluable) + sum(len(g_.evaluable) for g_ in (Gh.sub(c, cn) for cn, c, _, _ in by_call.values()) if g_ is not None)
+    if not n_atoms:
+        raise AnalysisError("get_wsgi_headers: no branch atom over the status found, neither in the function nor in the helpers that touch Content-Length (slot)")
+
+    ctx.floor("R5.3", "status/method atoms in get_app_iter + get_wsgi_headers", len(G.evaluable) + n_atoms, 2)
+
+    def effects(s: Sigma) -> tuple[list[t.Any], list[t.Any]]:
+        ss, rr = list(stores), list(removes)
+        for cn, c, sts, rms in by_call.values():
+            g = Gh.sub(c, cn)
+            deep = g is None or any(len(x.via) > 1 for x in sts + rms)
+            if sts and (deep or any(g.F.node(x.node).id in g.reach(s) for x in sts)):
+                ss.append(cn)
+            if rms and not deep and g.F.cfg.exit.id not in g.reach(s, avoid_nodes=[g.F.node(x.node) for x in rms]):
+                rr.append(cn)
+        return ss, rr
+
     kept, computed = [], []
     for st in STATUSES:
         s = Sigma(st, "GET")
         reach = Gh.reach(s)
+        ss, rr = effects(s)
         if st < 200 or st == 204:
-            if cfg.exit.id in Gh.reach(s, avoid_nodes=removes):
+            if cfg.exit.id in Gh.reach(s, avoid_nodes=rr):
                 kept.append(st)
-            if any(x.id in reach and cfg.exit.id in Gh.reach(s, x, avoid_nodes=removes) for x in stores):
+            if any(x.id in reach and cfg.exit.id in Gh.reach(s, x, avoid_nodes=[r_ for r_ in rr if r_ is not x]) for x in ss):
                 computed.append(st)
         elif st == 304:
-            if any(x.id in reach for x in stores):
+            if any(x.id in reach for x in ss):
                 computed.append(st)
+    removes = removes + [ent[0] for ent in by_call.values() if ent[3]]
+    stores = stores + [ent[0] for ent in by_call.values() if ent[2]]
     ctx.ob("R5.3", "get_wsgi_headers: 1xx / 204: a Content-Length is removed on every path", not kept,
            f"removal statements: {[norm(n.ast) for n in removes]}; statuses with a path to the return that skips them: {_ranges(kept)}", gwh, removes[0].ast if removes else gwh.node, "content-length removed for 1xx/204")
     ctx.ob("R5.3", "get_wsgi_headers: 1xx / 204 / 304: no Content-Length is computed", not computed,
@@ -796,7 +1403,7 @@ class _Len:
             calls[name] = {c.func.attr for c in astq.calls(fi.node, nested=False) if isinstance(c.func, ast.Attribute) and astq.is_name(c.func.value, "self")}
             for n in walk_no_nested(fi.node):
                 tg = n.targets if isinstance(n, ast.Assign) else [n.target] if isinstance(n, (ast.AugAssign, ast.AnnAssign)) else []
-                if any(is_self_attr(x, "response") for x in tg):
+                if any(is_self_attr(x, "response") or (isinstance(x, (ast.Tuple, ast.List)) and any(is_self_attr(y, "response") for y in x.elts)) for x in tg):
                     direct.add(name)
         out = set(direct)
         changed = True
@@ -810,22 +1417,78 @@ class _Len:
 
     # -- bytes-typed single values ------------------------------------------
     def bytes_value(self, F: Fn, at, e: ast.AST | None, depth: int = 0) -> tuple[bool, str]:
-        if e is None or depth > 6:
+        if e is None or depth > 14:
             return False, "unknown value"
         if isinstance(e, ast.Constant) and isinstance(e.value, bytes):
             return True, "bytes literal"
         if isinstance(e, ast.Call) and isinstance(e.func, ast.Attribute) and e.func.attr == "encode":
             return True, ".encode() result"
+        if isinstance(e, ast.Call) and norm(e.func).endswith("cast") and len(e.args) == 2:
+            return self.bytes_value(F, at, e.args[1], depth + 1)
+        if isinstance(e, ast.Call) and callee_of(F, e) is not None and callee_of(F, e) is not F.fi:
+            # one level of helper extraction: every return of the helper is bytes (its parameters judged inside it by
+            # the isinstance tests it makes, a declared `bytes | str` value that is not a str being bytes)
+            callee = callee_of(F, e)
+            assert callee is not None
+            rets = astq.returns_of(callee.node)
+            if rets and not any(isinstance(x, (ast.Yield, ast.YieldFrom)) for x in walk_no_nested(callee.node)):
+                Fc = fn_of(self.repo, callee)
+                whys = []
+                for r in rets:
+                    ok, why = self.bytes_value(Fc, Fc.node(r), r.value, depth + 2)
+                    if not ok:
+                        return False, f"{callee.qualname}: `{norm(r)}`: {why}"
+                    whys.append(why)
+                self.ctx.saw(callee)
+                return True, f"{callee.qualname}() -> " + " | ".join(sorted(set(whys)))
+        if isinstance(e, ast.Call) and isinstance(e.func, ast.Attribute) and e.func.attr == "join" and isinstance(e.func.value, ast.Constant) and isinstance(e.func.value.value, bytes) and len(e.args) == 1:
+            ok, why = self.bytes_iterable(F, at, e.args[0], depth + 1)
+            return ok, f"bytes join over {why}"
+        if isinstance(e, ast.IfExp):
+            test, yes, no = e.test, e.body, e.orelse
+            while isinstance(test, ast.UnaryOp) and isinstance(test.op, ast.Not):
+                test, yes, no = test.operand, no, yes
+            ia = isinstance_atom(test)
+            if ia is not None and isinstance(ia[0], ast.Name) and ia[1] == {"str"} and astq.is_name(no, ia[0].id):
+                # `x.encode() if isinstance(x, str) else x`: the declared `bytes | str` value that is not a str is bytes
+                a = self.bytes_value(F, at, yes, depth + 1)
+                return a[0], f"{a[1]} where `{ia[0].id}` is a str, else `{ia[0].id}` itself"
+            if ia is not None and isinstance(ia[0], ast.Name) and ia[1] <= {"bytes", "bytearray", "memoryview"} and astq.is_name(yes, ia[0].id):
+                b_ = self.bytes_value(F, at, no, depth + 1)
+                return b_[0], f"`{ia[0].id}` itself where it is bytes, else {b_[1]}"
+            a = self.bytes_value(F, at, yes, depth + 1)
+            b_ = self.bytes_value(F, at, no, depth + 1)
+            return a[0] and b_[0], (f"{a[1]} / {b_[1]}" if a[0] and b_[0] else b_[1] if a[0] else a[1])
         if isinstance(e, ast.Name):
             bs = bindings(F, at, e)
             if not bs:
                 return False, f"`{e.id}` has no local binding"
             enc_nodes = [b.node for b in bs if b.kind == "value" and b.node is not None and isinstance(b.expr, ast.Call) and isinstance(b.expr.func, ast.Attribute) and b.expr.func.attr == "encode"]
             for b in bs:
-                if b.kind == "value" and b.path == () and b.node is not None:
+                taken = b.kind == "value" and b.path == () and b.node is not None and isinstance(b.expr, ast.Call) and isinstance(b.expr.func, ast.Name) and b.expr.func.id == "next" and len(b.expr.args) >= 1
+                if taken and self.bytes_iterable(F, b.node, b.expr.args[0], depth + 1)[0]:
+                    pass  # an item taken from an encoded iterable
+                elif taken:
+                    # `item = next(it)`: an item as it comes (declared `bytes | str`): bytes once it is known not to be a str
+                    safe = []
+                    for t_ in F.cfg.tests():
+                        ia = isinstance_atom(t_.ast) if t_.kind == "test" else None
+                        if ia and isinstance(ia[0], ast.Name) and ia[0].id == e.id:
+                            if ia[1] == {"str"}:
+                                safe.append((t_, "F"))
+                            elif ia[1] <= {"bytes", "bytearray", "memoryview"}:
+                                safe.append((t_, "T"))
+                    start = [s_ for s_, l_ in b.node.succs if l_ != "exc"]
+                    if at.id in F.cfg.reach(start, avoid_nodes=[x for x in enc_nodes if x is not at] + [b.node], avoid_edges=safe):
+                        return False, f"`{e.id}` (taken with next()) can still be the unencoded str here"
+                elif b.kind == "value" and b.path == () and b.node is not None:
                     ok, why = self.bytes_value(F, b.node, b.expr, depth + 1)
                     if not ok:
                         return False, f"`{e.id}` <- {why}"
+                elif b.kind == "iter" and b.path == () and b.node is not None and self.bytes_iterable(F, b.node, b.expr, depth + 1)[0]:
+                    pass  # an item of an encoded iterable
+                elif b.kind == "iter" and bound_in_enclosing_comp(e, stop=F.fi.node) is not None:
+                    return False, f"`{e.id}` is an item of `{norm(b.expr) if b.expr is not None else '?'}`, taken as it comes (a str item stays a str)"
                 elif b.kind in ("param", "iter") and b.path in ((), None):
                     # a declared `bytes | str` item: bytes once it is known not to be a str
                     safe = []
@@ -860,7 +1523,7 @@ class _Len:
         return False, f"`{norm(e) if e is not None else None}` is not an encoded list"
 
     def bytes_iterable(self, F: Fn, at, e: ast.AST | None, depth: int = 0) -> tuple[bool, str]:
-        if e is None or depth > 6:
+        if e is None or depth > 14:
             return False, "unknown iterable"
         if _self_call(e, "iter_encoded"):
             return True, "self.iter_encoded()"
@@ -875,6 +1538,11 @@ class _Len:
             if not bs:
                 return False, f"`{e.id}` has no local binding"
             for b in bs:
+                if b.kind == "param":
+                    ok, why = _param_from_callers(F, e.id, self.bytes_iterable, depth)
+                    if not ok:
+                        return False, why
+                    continue
                 if not (b.kind == "value" and b.path == () and b.node is not None):
                     return False, f"`{e.id}` is bound to `{norm(b.expr) if b.expr is not None else b.kind}`"
                 ok, why = self.bytes_iterable(F, b.node, b.expr, depth + 1)
@@ -907,9 +1575,19 @@ class _Len:
 
     # -- lengths ------------------------------------------------------------
     def length(self, F: Fn, at, e: ast.AST | None, depth: int = 0) -> tuple[bool, str]:
-        if e is None or depth > 6:
+        if e is None or depth > 14:
             return False, "unknown length"
         if isinstance(e, ast.Call) and isinstance(e.func, ast.Name) and e.func.id in ("str", "int") and len(e.args) == 1:
+            return self.length(F, at, e.args[0], depth + 1)
+        # the number written out by other means than str(): f"{n}", "%d" % n, "{}".format(n), format(n)
+        if isinstance(e, ast.JoinedStr) and len(e.values) == 1 and isinstance(e.values[0], ast.FormattedValue) and e.values[0].format_spec is None and e.values[0].conversion in (-1, 115):
+            return self.length(F, at, e.values[0].value, depth + 1)
+        if isinstance(e, ast.BinOp) and isinstance(e.op, ast.Mod) and isinstance(e.left, ast.Constant) and e.left.value in ("%d", "%s", "%i"):
+            inner = e.right.elts[0] if isinstance(e.right, ast.Tuple) and len(e.right.elts) == 1 else e.right
+            return self.length(F, at, inner, depth + 1)
+        if isinstance(e, ast.Call) and isinstance(e.func, ast.Attribute) and e.func.attr == "format" and isinstance(e.func.value, ast.Constant) and e.func.value.value in ("{}", "{0}", "{:d}", "{0:d}") and len(e.args) == 1 and not e.keywords:
+            return self.length(F, at, e.args[0], depth + 1)
+        if isinstance(e, ast.Call) and isinstance(e.func, ast.Name) and e.func.id == "format" and len(e.args) == 1:
             return self.length(F, at, e.args[0], depth + 1)
         if isinstance(e, ast.Call) and isinstance(e.func, ast.Name) and e.func.id == "len" and len(e.args) == 1:
             ok, why = self.bytes_value(F, at, e.args[0], depth + 1)
@@ -923,8 +1601,19 @@ class _Len:
                 ok, why = self.bytes_iterable(F, at, a.generators[0].iter, depth + 1)
                 return ok, f"sum of len over {why}"
             return False, f"`{norm(e)}`: not a sum of item lengths"
-        if isinstance(e, ast.Call) and isinstance(e.func, ast.Attribute) and astq.is_name(e.func.value, "self"):
-            callee = method(self.repo, self.resp, e.func.attr)
+        if isinstance(e, ast.IfExp):
+            if astq.is_none(e.orelse) and not astq.is_none(e.body):
+                return self.length(F, at, e.body, depth + 1)  # `<length> if available else None`
+            if astq.is_none(e.body) and not astq.is_none(e.orelse):
+                return self.length(F, at, e.orelse, depth + 1)
+            a = self.length(F, at, e.body, depth + 1)
+            b_ = self.length(F, at, e.orelse, depth + 1)
+            return a[0] and b_[0], (f"{a[1]} / {b_[1]}" if a[0] and b_[0] else b_[1] if a[0] else a[1])
+        if isinstance(e, ast.Call) and norm(e.func).endswith("cast") and len(e.args) == 2:
+            return self.length(F, at, e.args[1], depth + 1)
+        if isinstance(e, ast.Call) and callee_of(F, e) is not None and callee_of(F, e) is not F.fi:
+            callee = callee_of(F, e)
+            assert callee is not None
             self.ctx.saw(callee)
             Fc = fn_of(self.repo, callee)
             rets = astq.returns_of(callee.node)
@@ -942,13 +1631,36 @@ class _Len:
         if isinstance(e, ast.BinOp) and isinstance(e.op, ast.Sub):
             return self.range_length(F, at, e)
         if isinstance(e, ast.Name):
+            ds = F.rd.reaching(at, e.id)
+            if ds and any(d.kind == "aug" for d in ds) and bound_in_enclosing_comp(e, stop=F.fi.node) is None:
+                # an accumulation loop: `n = 0` ... `n += len(item)`
+                whys = set()
+                for d in ds:
+                    if d.kind == "assign" and d.index is None and isinstance(d.value, ast.Constant) and d.value.value == 0:
+                        continue
+                    if d.kind == "aug" and isinstance(d.stmt, ast.AugAssign) and isinstance(d.stmt.op, ast.Add) and d.node is not None:
+                        ok, why = self.length(F, d.node, d.value, depth + 1)
+                        if not ok:
+                            return False, f"`{norm(d.stmt)}`: {why}"
+                        whys.add(why)
+                        continue
+                    return False, f"`{e.id}` is bound to `{norm(d.value) if d.value is not None else d.kind}` (not a computed length)"
+                return True, "accumulated " + "; ".join(sorted(whys))
             bs = bindings(F, at, e)
             if not bs:
                 return False, f"`{e.id}` has no local binding"
             whys = set()
             for b in bs:
+                if b.kind == "param":
+                    ok, why = _param_from_callers(F, e.id, lambda Fo, cn, a, d_: self.length(Fo, cn, a, d_), depth)
+                    if not ok:
+                        return False, why
+                    whys.add(why)
+                    continue
                 if not (b.kind == "value" and b.path == () and b.node is not None):
                     return False, f"`{e.id}` is bound to `{norm(b.expr) if b.expr is not None else b.kind}` (not a computed length)"
+                if astq.is_none(b.expr) and any(b2.expr is not None and not astq.is_none(b2.expr) for b2 in bs):
+                    continue  # "no length available" next to a computed one (the single-exit form of `return None`)
                 ok, why = self.length(F, b.node, b.expr, depth + 1)
                 if not ok:
                     return False, f"`{e.id}` <- {why}"
@@ -957,18 +1669,83 @@ class _Len:
         return False, f"`{norm(e)}` is not a length measured over encoded bytes"
 
     def range_length(self, F: Fn, at, e: ast.BinOp) -> tuple[bool, str]:
-        """`T[1] - T[0]` of the range tuple, with the same two numbers handed to the range wrapper."""
-        l, r = e.left, e.right
-        shape = (isinstance(l, ast.Subscript) and isinstance(r, ast.Subscript) and isinstance(l.value, ast.Name) and isinstance(r.value, ast.Name) and l.value.id == r.value.id
-                 and isinstance(l.slice, ast.Constant) and l.slice.value == 1 and isinstance(r.slice, ast.Constant) and r.slice.value == 0)
-        if not shape:
-            return False, f"`{norm(e)}` is not stop - start of one range tuple"
-        tname = l.value.id  # type: ignore[union-attr]
-        tb = bindings(F, at, l.value)  # type: ignore[arg-type]
-        src = all(b.kind == "value" and isinstance(b.expr, ast.Call) and isinstance(b.expr.func, ast.Attribute) and b.expr.func.attr == "range_for_length" for b in tb) and bool(tb)
-        if not src:
-            return False, f"`{tname}` is not the result of Range.range_for_length(..)"
-        return True, f"RANGE:{tname}"
+        """stop - start of the tuple returned by range_for_length (indexed or unpacked), to be matched with what the
+        range wrapper is built from."""
+        l, r = _range_elem(F, at, e.left), _range_elem(F, at, e.right)
+        if l is None or r is None or l[0] != r[0] or (l[1], r[1]) != (1, 0):
+            return False, f"`{norm(e)}` is not stop - start of one tuple returned by Range.range_for_length(..)"
+        return True, f"RANGE:{l[0]}"
+
+
+def _range_whole(F: Fn, at, e: ast.AST | None, depth: int = 0) -> int | None:
+    """identity of the range_for_length(..) call whose result e is."""
+    if e is None or depth > 4:
+        return None
+    if isinstance(e, ast.Call) and isinstance(e.func, ast.Attribute) and e.func.attr == "range_for_length":
+        return id(e)
+    if isinstance(e, ast.Name):
+        bs = bindings(F, at, e)
+        got = set()
+        for b in bs:
+            if b.kind == "value" and b.path == () and b.node is not None:
+                got.add(_range_whole(F, b.node, b.expr, depth + 1))
+            elif b.kind == "value" and len(b.path) == 1 and b.node is not None and callee_of(F, b.expr) is not None:
+                # unpacked from the pair a helper returns: that item of every returned tuple (None = "no range")
+                callee = callee_of(F, b.expr)
+                Fq = fn_of(F.repo, callee)
+                for r in astq.returns_of(callee.node):
+                    v = r.value
+                    if isinstance(v, ast.Tuple) and b.path[0] < len(v.elts) and not any(isinstance(x, ast.Starred) for x in v.elts):
+                        if astq.is_none(v.elts[b.path[0]]):
+                            continue
+                        got.add(_range_whole(Fq, Fq.node(r), v.elts[b.path[0]], depth + 1))
+                    else:
+                        got.add(None)
+            else:
+                got.add(None)
+        if len(got) == 1:
+            return got.pop()
+    return None
+
+
+def _range_elem(F: Fn, at, e: ast.AST | None, depth: int = 0) -> tuple[int, int] | None:
+    """(range_for_length call, index) when e is element 0 / 1 of its result: `t[i]`, or a local unpacked from it."""
+    if e is None or depth > 4:
+        return None
+    if isinstance(e, ast.Subscript) and isinstance(e.slice, ast.Constant) and e.slice.value in (0, 1):
+        w = _range_whole(F, at, e.value)
+        return (w, e.slice.value) if w is not None else None
+    if isinstance(e, ast.Name):
+        bs = bindings(F, at, e)
+        got = set()
+        for b in bs:
+            if b.kind != "value" or b.node is None:
+                return None
+            if len(b.path) == 1 and b.path[0] in (0, 1):
+                w = _range_whole(F, b.node, b.expr)
+                got.add((w, b.path[0]) if w is not None else None)
+            elif b.path == ():
+                got.add(_range_elem(F, b.node, b.expr, depth + 1))
+            else:
+                return None
+        if len(got) == 1:
+            return got.pop()
+    return None
+
+
+def _range_len(L: _Len, F: Fn, at, e: ast.AST | None, depth: int = 0) -> int | None:
+    """identity of the range_for_length call when e is its stop - start (directly or through locals)."""
+    if e is None or depth > 4:
+        return None
+    if isinstance(e, ast.BinOp) and isinstance(e.op, ast.Sub):
+        ok, why = L.range_length(F, at, e)
+        return int(why.split("RANGE:", 1)[1]) if ok else None
+    if isinstance(e, ast.Name):
+        bs = bindings(F, at, e)
+        got = {_range_len(L, F, b.node, b.expr, depth + 1) if b.kind == "value" and b.path == () and b.node is not None else None for b in bs}
+        if len(got) == 1:
+            return got.pop()
+    return None
 
 
 def _cl_store_sites(ctx: Ctx, resp: ClassInfo) -> list[tuple[FuncInfo, ast.AST, ast.AST]]:
@@ -994,14 +1771,14 @@ def _r54(ctx: Ctx) -> None:
     resp = _resp(ctx)
     L = _Len(ctx, resp)
     sites = _cl_store_sites(ctx, resp)
-    ctx.floor("R5.4", "Content-Length stores in the Response classes", len(sites), 5)
+    ctx.floor("R5.4", "Content-Length stores in the Response classes", len(sites), 3)  # 5 today; stores may be merged into a helper
     for fi, site, v in sites:
         F = fn_of(repo, fi)
         at = F.node(site)
         ok, why = L.length(F, at, v)
         extra = ""
         if ok and "RANGE:" in why:
-            ok, extra = _range_feeds_wrapper(ctx, L, F, at, site, v, why.split("RANGE:", 1)[1].split(";")[0])
+            ok, extra = _range_feeds_wrapper(ctx, L, F, at, site, v, int(why.split("RANGE:", 1)[1].split(";")[0]))
             why = "stop - start of the tuple returned by range_for_length"
         ctx.ob("R5.4", f"{fi.qualname}: `{norm(site)[:80]}` stores a length measured over bytes", ok, why + extra, fi, site, f"content-length {norm(site)}")
     # set_data: the measured value is the body
@@ -1010,17 +1787,21 @@ def _r54(ctx: Ctx) -> None:
     for fi, site, v in sites:
         if fi is not sd:
             continue
-        lens = [c for c in astq.calls(v) if isinstance(c.func, ast.Name) and c.func.id == "len" and len(c.args) == 1 and isinstance(c.args[0], ast.Name)]
         bodies = [n for n in Fs.cfg.nodes if isinstance(n.ast, ast.Assign) and any(is_self_attr(x, "response") for x in n.ast.targets)]
-        ok = len(lens) == 1 and len(bodies) == 1
-        fact = f"{len(lens)} len() call(s), {len(bodies)} body assignment(s)"
+        ok = len(bodies) == 1
+        fact = f"{len(bodies)} body assignment(s)"
         if ok:
             b = bodies[0]
-            nm = lens[0].args[0].id  # type: ignore[attr-defined]
-            one = isinstance(b.ast.value, (ast.List, ast.Tuple)) and len(b.ast.value.elts) == 1 and astq.is_name(b.ast.value.elts[0], nm)
-            same = same_binding(Fs, b, Fs.node(site), nm)
-            ok = one and same
-            fact = f"body `{norm(b.ast)}` is the one-item list of `{nm}`: {one}; `{nm}` denotes the same bytes where it is measured: {same}"
+            sn_ = Fs.node(site)
+            # what is measured: the local inside len(..), or the local list handed to a length helper / sum
+            measured = [x for x in ast.walk(v) if isinstance(x, ast.Name) and isinstance(x.ctx, ast.Load) and Fs.rd.reaching(sn_, x.id)]
+            # what is stored: [x] of that local, or that local list itself (a one-item list of encoded bytes)
+            bv = b.ast.value
+            stored = [bv.elts[0].id] if isinstance(bv, (ast.List, ast.Tuple)) and len(bv.elts) == 1 and isinstance(bv.elts[0], ast.Name) else [bv.id] if isinstance(bv, ast.Name) else []
+            names = [x.id for x in measured if x.id in stored]
+            same = bool(names) and all(same_binding(Fs, b, sn_, nm) for nm in names) and len({x.id for x in measured}) == 1
+            ok = same
+            fact = f"body `{norm(b.ast)}` stores `{stored}`, the length is taken over `{sorted({x.id for x in measured})}`; the same binding at both places: {same}"
         ctx.ob("R5.4", "set_data: the measured bytes are the stored body", ok, fact, sd, site, "set_data measures the body")
     # the encoder and the stream handed to the server
     ie = method(repo, resp, "iter_encoded")
@@ -1041,52 +1822,104 @@ def _r54(ctx: Ctx) -> None:
         ctx.saw(enc_fi)
         Fe = fn_of(repo, enc_fi)
         ys = [n for n in walk_no_nested(enc_fi.node) if isinstance(n, ast.Yield)]
-        ctx.floor("R5.4", "yields of the encoder", len(ys), 1)
+        yfs = [n for n in walk_no_nested(enc_fi.node) if isinstance(n, ast.YieldFrom)]
+        # the encoder written as a generator function (yield per item, or `yield from` a lazy mapping of the items), or as a
+        # function returning a generator expression / map over the items
+        streams: list[tuple[ast.AST, ast.AST | None]] = [(y, y.value) for y in yfs]
+        if not ys and not yfs:
+            streams += [(r, v) for r in astq.returns_of(enc_fi.node) for v, _ in _expansions(Fe, Fe.node(r), r.value)]
+        ctx.floor("R5.4", "yields of the encoder", len(ys) + len(streams), 1)
         for y in ys:
             okv, why = L.bytes_value(Fe, Fe.node(y), y.value)
             g = _gtext(Fe, Fe.node(y))
             ctx.ob("R5.4", f"{enc_fi.qualname}: `{norm(y)}` yields bytes", okv, f"{why}; under {g}", enc_fi, y, f"encoder yield {norm(y)} under {g}")
+        for holder, v in streams:
+            hn = Fe.node(holder)
+            if isinstance(v, (ast.GeneratorExp, ast.ListComp)):
+                okv, why = L.bytes_value(Fe, hn, v.elt)
+                whole = len(v.generators) == 1 and not v.generators[0].ifs and isinstance(v.generators[0].iter, ast.Name) and v.generators[0].iter.id in enc_fi.params
+                ctx.ob("R5.4", f"{enc_fi.qualname}: `{norm(v)[:70]}` produces bytes for every item", okv and whole, f"{why}; one unfiltered pass over the parameter: {whole}", enc_fi, holder, f"encoder items {norm(v.elt)}")
+            elif isinstance(v, ast.Call) and isinstance(v.func, ast.Name) and v.func.id == "map" and len(v.args) == 2:
+                # map(f, items): f is a package helper that returns bytes for its (declared `bytes | str`) argument
+                fcall = ast.Call(func=v.args[0], args=[ast.Name(id="_item", ctx=ast.Load())], keywords=[])
+                okv, why = L.bytes_value(Fe, hn, fcall) if callee_of(Fe, fcall) is not None else (False, f"`{norm(v.args[0])}` is not a function of the package")
+                whole = isinstance(v.args[1], ast.Name) and v.args[1].id in enc_fi.params
+                ctx.ob("R5.4", f"{enc_fi.qualname}: `{norm(v)[:70]}` produces bytes for every item", okv and whole, f"{why}; one pass over the parameter: {whole}", enc_fi, holder, f"encoder items {norm(v)}")
+            else:
+                ctx.ob("R5.4", f"{enc_fi.qualname}: `{norm(holder)[:70]}` produces bytes for every item", False, "neither a generator expression nor a map over the items", enc_fi, holder, f"encoder stream {norm(holder)}")
     gai = method(repo, resp, "get_app_iter")
     Fg = fn_of(repo, gai)
     n_body = 0
     for r in astq.returns_of(gai.node):
-        ca = _closing_iterator_arg(Fg, r.value)
-        if ca is None or ca[0] is None:
-            continue
-        x = ca[0]
-        exprs = [b.expr for b in bindings(Fg, Fg.node(r), x)] if isinstance(x, ast.Name) else [x]
-        for ex in exprs:
-            if ex is None or is_empty_literal(ex):
+        for v, vn in _expansions(Fg, Fg.node(r), r.value):
+            ca = _closing_iterator_arg(Fg, v)
+            if ca is None or ca[0] is None:
                 continue
-            n_body += 1
-            ctx.ob("R5.4", "the body handed to the server is the measured encoded stream", _self_call(ex, "iter_encoded"), f"wrapped iterable `{norm(ex)}`", gai, r, f"served body {norm(ex)}")
+            for ex, _ in _expansions(Fg, vn, ca[0]):
+                if ex is None or is_empty_literal(ex):
+                    continue
+                n_body += 1
+                ctx.ob("R5.4", "the body handed to the server is the measured encoded stream", _self_call(ex, "iter_encoded"), f"wrapped iterable `{norm(ex)}`", gai, r, f"served body {norm(ex)}")
     ctx.floor("R5.4", "non-empty bodies wrapped by get_app_iter", n_body, 1)
 
 
-def _range_feeds_wrapper(ctx: Ctx, L: _Len, F: Fn, at, site: ast.AST, v: ast.AST, tname: str) -> tuple[bool, str]:
+def _status_established(cfg, wn, t_, lab: str) -> tuple[bool, str] | None:
+    """the guard (t_, lab) says `self.status_code == K`; is `self.status_code = K` established before node wn?
+    None when the guard is no such test."""
+    if t_.kind != "test":
+        return None
+    cp = astq.cmp_parts(t_.ast)
+    # `self.status_code == 206` holding on the way to the wrapping: the true edge of ==, or the false edge of !=
+    if cp and isinstance(cp[1], (ast.Eq, ast.NotEq)) and (is_self_attr(cp[2], "status_code") and isinstance(cp[0], ast.Constant)):
+        cp = (cp[2], cp[1], cp[0])
+    if cp and isinstance(cp[1], (ast.Eq, ast.NotEq)) and (lab == "T") == isinstance(cp[1], ast.Eq) and is_self_attr(cp[0], "status_code") and isinstance(cp[2], ast.Constant):
+        sets = [n for n in cfg.nodes if isinstance(n.ast, ast.Assign) and any(is_self_attr(x, "status_code") for x in n.ast.targets) and isinstance(n.ast.value, ast.Constant) and n.ast.value.value == cp[2].value]
+        g = any(cfg.node_dominates(n, wn) and not any(o is not n and isinstance(o.ast, ast.Assign) and any(is_self_attr(x, "status_code") or is_self_attr(x, "status") for x in o.ast.targets) and o.id in cfg.reach(n) and wn.id in cfg.reach(o) for o in cfg.nodes) for n in sets)
+        return g, f"; wrapper applies only when `{norm(t_.ast)}`, established before: {g}"
+    return None
+
+
+def _range_feeds_wrapper(ctx: Ctx, L: _Len, F: Fn, at, site: ast.AST, v: ast.AST, base: int) -> tuple[bool, str]:
     """the announced range length and the range start are what the body wrapper is built with, on every path after the store."""
     repo = ctx.repo
     cfg = F.cfg
-    lname = None
-    for x in ast.walk(v):
-        if isinstance(x, ast.Name) and x.id not in ("str", "int"):
-            lname = x
+    # (a) the wrapper is built right here: self.response = _RangeWrapper(self.response, start, length)
+    direct = []
+    for n in cfg.nodes:
+        if isinstance(n.ast, ast.Assign) and any(is_self_attr(x, "response") for x in n.ast.targets) and isinstance(n.ast.value, ast.Call) and (F.call_fq(n.ast.value) or "").endswith("_RangeWrapper"):
+            direct.append(n)
+    if direct:
+        if len(direct) != 1:
+            return False, f"; {len(direct)} places build a _RangeWrapper"
+        wn = direct[0]
+        bc = wn.ast.value
+        a_body, a_start, a_len = (astq.arg_or_kw(bc, 0, "iterable"), astq.arg_or_kw(bc, 1, "start_byte"), astq.arg_or_kw(bc, 2, "byte_range"))
+        fwd = is_self_attr(a_body, "response") and _range_elem(F, wn, a_start) == (base, 0) and _range_len(L, F, wn, a_len) == base
+        always = cfg.exit.id not in cfg.reach(at, avoid_nodes=[wn]) or cfg.node_dominates(wn, at)
+        guard_ok, gfact = True, ""
+        here = {(t_.id, lab) for t_, lab in cfg.guards(at)}
+        for t_, lab in cfg.guards(wn):
+            if (t_.id, lab) in here:
+                continue  # a condition of the store as well
+            r_ = _status_established(cfg, wn, t_, lab)
+            if r_ is None:
+                if t_.kind == "test":
+                    guard_ok, gfact = False, f"; wrapping is conditional on `{norm(t_.ast)}`:{lab}"
+            else:
+                guard_ok, gfact = guard_ok and r_[0], r_[1]
+        return fwd and always and guard_ok, f"; `{norm(wn.ast)[:80]}` is built from the same start and length: {fwd}, on every path after the store: {always}{gfact}"
+    # (b) through a wrapper method that is handed start and length
     wraps = []
     for c in astq.calls(F.fi.node, nested=False):
-        if isinstance(c.func, ast.Attribute) and astq.is_name(c.func.value, "self") and len(c.args) == 2:
-            a0, a1 = c.args
-            if isinstance(a0, ast.Subscript) and astq.is_name(a0.value, tname) and isinstance(a0.slice, ast.Constant) and a0.slice.value == 0:
+        if isinstance(c.func, ast.Attribute) and astq.is_name(c.func.value, "self") and len(c.args) == 2 and not c.keywords:
+            cn = cfg.node_of(c)
+            if cn is not None and _range_elem(F, cn, c.args[0]) == (base, 0):
                 wraps.append(c)
     if len(wraps) != 1:
-        return False, f"; {len(wraps)} call(s) passing `{tname}[0]` and a length to a wrapper method"
+        return False, f"; {len(wraps)} call(s) passing the start of that range and a length to a wrapper method"
     w = wraps[0]
     wn = F.node(w)
-    a1 = w.args[1]
-    if lname is not None and isinstance(a1, ast.Name):
-        same_len = a1.id == lname.id and same_binding(F, at, wn, a1.id)
-    else:
-        same_len = norm(a1) == norm(v.args[0]) if isinstance(v, ast.Call) and v.args else False
-    same_t = same_binding(F, at, wn, tname)
+    same_len = _range_len(L, F, wn, w.args[1]) == base
     always = cfg.exit.id not in cfg.reach(at, avoid_nodes=[wn]) or cfg.node_dominates(wn, at)
     callee = method(repo, L.resp, w.func.attr)  # type: ignore[union-attr]
     ctx.saw(callee)
@@ -1100,18 +1933,17 @@ def _range_feeds_wrapper(ctx: Ctx, L: _Len, F: Fn, at, site: ast.AST, v: ast.AST
         bc = built[0].ast.value
         fwd = (Fw.call_fq(bc) or "").endswith("_RangeWrapper") and len(bc.args) == 3 and is_self_attr(bc.args[0], "response") and astq.is_name(bc.args[1], ps[1]) and astq.is_name(bc.args[2], ps[2])
         # a status test around the wrapping must have been satisfied by the caller before the call
-        for t, lab in Fw.cfg.guards(built[0]):
-            cp = astq.cmp_parts(t.ast)
-            if cp and isinstance(cp[1], ast.Eq) and lab == "T" and is_self_attr(cp[0], "status_code") and isinstance(cp[2], ast.Constant):
-                sets = [n for n in cfg.nodes if isinstance(n.ast, ast.Assign) and any(is_self_attr(x, "status_code") for x in n.ast.targets) and isinstance(n.ast.value, ast.Constant) and n.ast.value.value == cp[2].value]
-                g = any(cfg.node_dominates(n, wn) and not any(o is not n and isinstance(o.ast, ast.Assign) and any(is_self_attr(x, "status_code") or is_self_attr(x, "status") for x in o.ast.targets) and o.id in cfg.reach(n) and wn.id in cfg.reach(o) for o in cfg.nodes) for n in sets)
-                guard_ok = guard_ok and g
-                gfact = f"; wrapper applies only when `{norm(t.ast)}`, established before the call: {g}"
-            else:
+        for t_, lab in Fw.cfg.guards(built[0]):
+            if t_.kind != "test":
+                continue
+            r_ = _status_established(cfg, wn, t_, lab)
+            if r_ is None:
                 guard_ok = False
-                gfact = f"; wrapping is conditional on `{norm(t.ast)}`:{lab}"
-    ok = same_len and same_t and always and fwd and guard_ok
-    return ok, f"; `{norm(w)}` gets the same start and length: {same_len and same_t}, on every path after the store: {always}; {callee.qualname} builds _RangeWrapper(self.response, start, length) from them: {fwd}{gfact}"
+                gfact = f"; wrapping is conditional on `{norm(t_.ast)}`:{lab}"
+            else:
+                guard_ok, gfact = guard_ok and r_[0], r_[1]
+    ok = same_len and always and fwd and guard_ok
+    return ok, f"; `{norm(w)}` gets the same start and length: {same_len}, on every path after the store: {always}; {callee.qualname} builds _RangeWrapper(self.response, start, length) from them: {fwd}{gfact}"
 
 
 
@@ -1127,17 +1959,42 @@ IRI_TO_URI = "werkzeug.urls.iri_to_uri"
 URLJOIN = "urllib.parse.urljoin"
 
 
-def _uri_ok(F: Fn, at, e: ast.AST | None, depth: int = 0) -> tuple[bool, str]:
-    if e is None or depth > 6:
+def _uri_ok(F: Fn, at, e: ast.AST | None, depth: int = 0, env: dict[str, tuple[bool, str]] | None = None) -> tuple[bool, str]:
+    """e is a URI: iri_to_uri(..), urljoin of URIs, or a local / helper result that is one on every path.  `env` gives the
+    verdict for parameters of a followed helper (judged at the call site)."""
+    if e is None or depth > 8:
         return False, "unknown value"
+    if isinstance(e, ast.NamedExpr):
+        return _uri_ok(F, at, e.value, depth + 1, env)
+    if isinstance(e, ast.IfExp):
+        a = _uri_ok(F, at, e.body, depth + 1, env)
+        b = _uri_ok(F, at, e.orelse, depth + 1, env)
+        return a[0] and b[0], (f"{a[1]} | {b[1]}" if a[0] and b[0] else b[1] if a[0] else a[1])
     if isinstance(e, ast.Call):
         fq = F.call_fq(e)
         if fq == IRI_TO_URI:
             return True, "iri_to_uri(..)"
         if fq == URLJOIN and len(e.args) == 2:
-            a = _uri_ok(F, at, e.args[0], depth + 1)
-            b = _uri_ok(F, at, e.args[1], depth + 1)
+            a = _uri_ok(F, at, e.args[0], depth + 1, env)
+            b = _uri_ok(F, at, e.args[1], depth + 1, env)
             return a[0] and b[0], f"urljoin({a[1]}, {b[1]})"
+        if norm(e.func).endswith("cast") and len(e.args) == 2:
+            return _uri_ok(F, at, e.args[1], depth + 1, env)
+        callee = callee_of(F, e)
+        if callee is not None and callee is not F.fi and not any(isinstance(x, (ast.Yield, ast.YieldFrom)) for x in walk_no_nested(callee.node)):
+            # one level of helper extraction: every return of the helper is a URI, its parameters judged by what is passed here
+            rets = astq.returns_of(callee.node)
+            if rets:
+                Fc = fn_of(F.repo, callee)
+                sub = {p: _uri_ok(F, at, a, depth + 1, env) for p, a in call_args(callee, e).items()}
+                whys = set()
+                for r in rets:
+                    ok, why = _uri_ok(Fc, Fc.node(r), r.value, depth + 2, sub)
+                    if not ok:
+                        return False, f"{callee.qualname}: `{norm(r)}`: {why}"
+                    whys.add(why)
+                _saw(callee)
+                return True, f"{callee.qualname}() -> " + " | ".join(sorted(whys))
         return False, f"`{norm(e)[:50]}` is neither iri_to_uri nor urljoin of URIs"
     if isinstance(e, ast.Name):
         bs = bindings(F, at, e)
@@ -1145,14 +2002,61 @@ def _uri_ok(F: Fn, at, e: ast.AST | None, depth: int = 0) -> tuple[bool, str]:
             return False, f"`{e.id}` has no local binding"
         whys = set()
         for b in bs:
+            if b.kind == "param" and env is not None and e.id in env:
+                ok, why = env[e.id]
+                if not ok:
+                    return False, f"parameter `{e.id}` <- {why}"
+                whys.add(why)
+                continue
             if not (b.kind == "value" and b.path == () and b.node is not None):
                 return False, f"`{e.id}` can be `{norm(b.expr) if b.expr is not None else b.kind}` here (the raw header value: bound by `{'for' if b.kind == 'iter' else b.kind}`)"
-            ok, why = _uri_ok(F, b.node, b.expr, depth + 1)
+            ok, why = _uri_ok(F, b.node, b.expr, depth + 1, env)
             if not ok:
                 return False, f"`{e.id}` <- {why}"
             whys.add(why)
         return True, " | ".join(sorted(whys))
     return False, f"`{norm(e)[:50]}` is not converted with iri_to_uri"
+
+
+class _Site(t.NamedTuple):
+    F: Fn  # function that contains the statement
+    node: ast.AST  # the store / removal statement or call
+    key: str
+    value: ast.AST | None
+    via: tuple[tuple[Fn, ast.Call], ...]  # the chain of calls (outermost first) that hands the headers object down
+
+
+def _header_sites(F: Fn, hnames: set[str], keys: set[str], via: tuple[tuple[Fn, ast.Call], ...] = ()) -> tuple[list[_Site], list[_Site]]:
+    """stores and removals of the given header keys on the headers object held by the locals `hnames`: in the function
+    itself and in the package helpers the object is passed to (two levels)."""
+    stores = [_Site(F, n, k, v, via) for n, h, k, v in header_stores(F.fi.node, keys) if isinstance(h, ast.Name) and h.id in hnames]
+    removals = [_Site(F, n, k, None, via) for n, h, k in header_removals(F.fi.node, keys) if isinstance(h, ast.Name) and h.id in hnames]
+    if len(via) < 2:
+        for c in astq.calls(F.fi.node, nested=False):
+            if not any(isinstance(a, ast.Name) and a.id in hnames for a in [*c.args, *[k.value for k in c.keywords]]):
+                continue
+            callee = callee_of(F, c)
+            if callee is None or callee is F.fi or any(callee is f.fi for f, _ in via):
+                continue
+            inner = {p for p, a in call_args(callee, c).items() if isinstance(a, ast.Name) and a.id in hnames}
+            if not inner:
+                continue
+            st, rm = _header_sites(fn_of(F.repo, callee), inner, keys, via + ((F, c),))
+            if st or rm:
+                _saw(callee)
+            stores += st
+            removals += rm
+    return stores, removals
+
+
+def _site_env(site: _Site, check) -> dict[str, tuple[bool, str]] | None:
+    """verdicts for the parameters of the helper that contains the site, judged along the chain of calls."""
+    env: dict[str, tuple[bool, str]] | None = None
+    callee_F = None
+    for i, (Fo, c) in enumerate(site.via):
+        callee_F = site.via[i + 1][0] if i + 1 < len(site.via) else site.F
+        env = {p: check(Fo, Fo.node(c), a, 1, env) for p, a in call_args(callee_F.fi, c).items()}
+    return env
 
 
 def _r55(ctx: Ctx) -> None:
@@ -1162,44 +2066,549 @@ def _r55(ctx: Ctx) -> None:
     F = fn_of(repo, gwh)
     hnames = {r.value.id for r in astq.returns_of(gwh.node) if isinstance(r.value, ast.Name)}
     keys = {"location", "content-location"}
-    sites = [(n, h, k, v) for n, h, k, v in header_stores(gwh.node, keys) if isinstance(h, ast.Name) and h.id in hnames]
-    ctx.floor("R5.5", "Location / Content-Location stores in get_wsgi_headers", len({k for _, _, k, _ in sites}), 2)
-    for n, h, k, v in sites:
-        at = F.node(n)
-        ok, why = _uri_ok(F, at, v)
-        ctx.ob("R5.5", f"`{norm(n)}` stores a URI", ok, f"value provenance: {why}", gwh, n, f"uri stored {norm(n)}")
+    sites, _ = _header_sites(F, hnames, keys)
+    ctx.floor("R5.5", "Location / Content-Location stores in get_wsgi_headers", len({s_.key for s_ in sites}), 2)
+    for site in sites:
+        Fs, n, k, v = site.F, site.node, site.key, site.value
+        at = Fs.node(n)
+        ok, why = _uri_ok(Fs, at, v, 0, _site_env(site, _uri_ok))
+        ctx.ob("R5.5", f"`{norm(n)}` stores a URI", ok, f"value provenance: {why}", Fs.fi, n, f"uri stored {norm(n)}")
+    # presence: on every path of the function on which the header value exists, one of the stores of that key happens
+    groups: dict[tuple[int, str], list[_Site]] = {}
+    for site in sites:
+        groups.setdefault((id(site.F), site.key), []).append(site)
+    for (_, k), grp in groups.items():
+        Fs = grp[0].F
+        nodes = [Fs.node(x.node) for x in grp]
+        # the locals the stored values are made from (followed through their bindings): a None test on one of them is the
+        # presence test of the header
+        names: set[str] = set()
+        work = [(Fs.node(x.node), x.value) for x in grp]
+        seen_b = set()
+        while work:
+            at_, e_ = work.pop()
+            for nm in [n_ for n_ in ast.walk(e_) if isinstance(n_, ast.Name) and isinstance(n_.ctx, ast.Load)] if e_ is not None else []:
+                if (at_.id, nm.id) in seen_b:
+                    continue
+                seen_b.add((at_.id, nm.id))
+                if Fs.rd.reaching(at_, nm.id):
+                    names.add(nm.id)
+                for b in bindings(Fs, at_, nm):
+                    if b.kind == "value" and b.node is not None and b.expr is not None and len(seen_b) < 200:
+                        work.append((b.node, b.expr))
+        absent = []
+        for tn in Fs.cfg.tests():
+            nt = none_test(tn.ast) if tn.kind == "test" else None
+            if nt is not None and isinstance(nt[0], ast.Name) and nt[0].id in names:
+                absent.append((tn, "F" if nt[1] == "T" else "T"))
+        skipped = Fs.cfg.exit.id in Fs.cfg.reach(avoid_nodes=nodes, avoid_edges=absent)
         cond = []
-        for t, lab in F.cfg.guards(at):
-            if t.kind != "test":
-                continue  # the false edge of a loop that precedes the store
-            nt = none_test(t.ast)
-            if nt is None or nt[1] != lab or not isinstance(nt[0], ast.Name):
-                cond.append(f"{t.text() if t.kind == 'loop' else norm(t.ast)}:{lab}")
-        ctx.ob("R5.5", f"`{norm(n)}` happens whenever the header is present", not cond, f"conditions other than presence of the header value: {cond}" if cond else f"guards: {_gtext(F, at)}", gwh, n, f"uri store unconditional {k}")
+        if skipped:
+            p_ = Fs.cfg.path(Fs.cfg.entry, Fs.cfg.exit, avoid_nodes=nodes, avoid_edges=absent)
+            cond.append("a path on which the value exists reaches the end without the store: " + Fs.cfg.fmt_path(p_ or [])[-300:])
+        # a helper that holds the store must itself be reached whenever the value exists
+        for Fo, c in grp[0].via:
+            for tn, lab in Fo.cfg.guards(Fo.node(c)):
+                if tn.kind != "test":
+                    continue
+                nt = none_test(tn.ast)
+                if nt is None or nt[1] != lab or not isinstance(nt[0], ast.Name):
+                    cond.append(f"{norm(tn.ast)}:{lab}")
+        n0 = grp[0].node
+        ctx.ob("R5.5", f"the {k} store happens whenever the header is present", not cond, f"conditions other than presence of the header value: {cond}" if cond else f"stores {[norm(x.node) for x in grp]}; presence tests on {sorted(names)}", Fs.fi, n0, f"uri store unconditional {k}")
 
 
 # =====================================================================
 # R5.6: close chaining
 
 
-def _loop_runs_all(F: Fn, over) -> tuple[bool, str, ast.AST | None]:
-    """a `for f in <over>: f()` loop that every normal path passes and that has no early exit."""
-    loops = [n for n in F.cfg.nodes if n.kind == "loop" and isinstance(n.ast, ast.For) and over(n.ast.iter)]
+def _self_attr_iterated(F: Fn, at, e: ast.AST | None, depth: int = 0, env: dict[str, str] | None = None) -> str | None:
+    """`self.<attr>` that e iterates in its own order: the attribute, list/tuple/iter of it, or a local alias of these
+    (env: parameters of a followed helper that receive such an attribute at the call)."""
+    if e is None or depth > 4:
+        return None
+    if isinstance(e, ast.Attribute) and astq.is_name(e.value, "self"):
+        return e.attr
+    if isinstance(e, ast.Call) and isinstance(e.func, ast.Name) and e.func.id in ("list", "tuple", "iter") and len(e.args) == 1 and not e.keywords:
+        return _self_attr_iterated(F, at, e.args[0], depth + 1, env)
+    if isinstance(e, ast.Name):
+        bs = bindings(F, at, e)
+        got = {(env or {}).get(e.id) if b.kind == "param" else _self_attr_iterated(F, b.node, b.expr, depth + 1, env) if b.kind == "value" and b.path == () and b.node is not None else None for b in bs}
+        if len(got) == 1:
+            return got.pop()
+    return None
+
+
+def _appends_item(c: ast.Call, ident: str, F: Fn | None = None) -> bool:
+    """`xs.append(ident)` / `xs.extend([ident])` / `xs.insert(len(xs), ident)`: the call adds exactly that parameter (or a
+    local that is a plain alias of it) at the end."""
+    f = c.func
+    if not isinstance(f, ast.Attribute) or c.keywords:
+        return False
+
+    def it(x: ast.AST, depth: int = 0) -> bool:
+        if not isinstance(x, ast.Name):
+            return False
+        if F is None:
+            return x.id == ident
+        cn = F.cfg.node_of(c)
+        bs = bindings(F, cn, x) if cn is not None else []
+
+        def root(F_: Fn, b, d_: int) -> bool:
+            if b.kind == "param":
+                return d_ == 0 and x.id == ident or d_ > 0
+            return False
+
+        if x.id == ident and bs and all(b.kind == "param" for b in bs):
+            return True
+        # a plain alias chain down to the parameter
+        cur, at_, n_ = x, cn, 0
+        while n_ < 4 and at_ is not None:
+            bs = bindings(F, at_, cur)
+            if bs and all(b.kind == "param" for b in bs):
+                return cur.id == ident
+            if len(bs) == 1 and bs[0].kind == "value" and bs[0].path == () and isinstance(bs[0].expr, ast.Name):
+                cur, at_, n_ = bs[0].expr, bs[0].node, n_ + 1
+                continue
+            return False
+        return False
+
+    if f.attr == "append" and len(c.args) == 1:
+        return it(c.args[0])
+    if f.attr == "extend" and len(c.args) == 1 and isinstance(c.args[0], (ast.List, ast.Tuple)) and len(c.args[0].elts) == 1:
+        return it(c.args[0].elts[0])
+    if f.attr == "insert" and len(c.args) == 2 and isinstance(c.args[0], ast.Call) and isinstance(c.args[0].func, ast.Name) and c.args[0].func.id == "len" and len(c.args[0].args) == 1 and norm(c.args[0].args[0]) == norm(f.value):
+        return it(c.args[1])
+    return False
+
+
+def _self_attr_alias(F: Fn, at, e: ast.AST | None, depth: int = 0) -> str | None:
+    """`self.<attr>` itself or a local that is bound to it (the same object, so in-place changes reach the attribute)."""
+    if e is None or depth > 4:
+        return None
+    if isinstance(e, ast.Attribute) and astq.is_name(e.value, "self"):
+        return e.attr
+    if isinstance(e, ast.Name):
+        bs = bindings(F, at, e)
+        got = {_self_attr_alias(F, b.node, b.expr, depth + 1) if b.kind == "value" and b.path == () and b.node is not None else None for b in bs}
+        if len(got) == 1:
+            return got.pop()
+    return None
+
+
+def _unconditional_helpers(F: Fn) -> list[tuple[Fn, dict[str, str]]]:
+    """(helper, {parameter: attr of self it receives}) for the package helpers that F calls on every normal path (one
+    level of extraction)."""
+    out = []
+    for c in astq.calls(F.fi.node, nested=False):
+        callee = callee_of(F, c)
+        cn = F.cfg.node_of(c)
+        if callee is None or callee is F.fi or cn is None:
+            continue
+        if F.cfg.exit.id not in F.cfg.reach(avoid_nodes=[cn]):
+            _saw(callee)
+            env = {p_: a_ for p_, a_ in ((p_, _self_attr_iterated(F, cn, x)) for p_, x in call_args(callee, c).items()) if a_ is not None}
+            out.append((fn_of(F.repo, callee), env))
+    return out
+
+
+def _closes_body(Fr: Fn) -> tuple[bool, str, ast.AST | None]:
+    """every normal path of the function calls the close of self.response, unless the body has none."""
+
+    def body_close(at_, x: ast.AST | None, depth: int = 0) -> bool:
+        """x is the close attribute of self.response (read directly, through getattr, or through a local holding it)."""
+        if isinstance(x, ast.NamedExpr):
+            x = x.value
+        if isinstance(x, ast.Attribute) and x.attr == "close" and _self_attr_alias(Fr, at_, x.value) == "response":
+            return True
+        if isinstance(x, ast.Call) and isinstance(x.func, ast.Name) and x.func.id == "getattr" and len(x.args) >= 2 and _self_attr_alias(Fr, at_, x.args[0]) == "response" and astq.const_str(x.args[1]) == "close":
+            return True
+        if isinstance(x, ast.Name) and depth < 4:
+            bs = bindings(Fr, at_, x)
+            return bool(bs) and all(b.kind == "value" and b.path == () and b.node is not None and body_close(b.node, b.expr, depth + 1) for b in bs)
+        return False
+
+    bc = []
+    for c in astq.calls(Fr.fi.node, nested=False):
+        cn = Fr.cfg.node_of(c)
+        if cn is not None and not c.args and not c.keywords and body_close(cn, c.func):
+            bc.append(cn)
+    # a generator of functions to call (`yield self.response.close`): the yield stands for the call when the function is
+    # consumed by a loop that calls every item (checked by the caller through _generator_consumers)
+    for y in walk_no_nested(Fr.fi.node):
+        if isinstance(y, ast.Yield) and y.value is not None:
+            yn = Fr.cfg.node_of(y)
+            if yn is not None and body_close(yn, y.value):
+                bc.append(yn)
+    gone = []
+    for tn in Fr.cfg.tests():
+        if tn.kind != "test":
+            continue
+        e = tn.ast
+        if isinstance(e, ast.Name):
+            # the condition was computed into a local first: `closable = hasattr(self.response, "close")`
+            bs = bindings(Fr, tn, e)
+            if len(bs) == 1 and bs[0].kind == "value" and bs[0].path == () and isinstance(bs[0].expr, ast.Call) and isinstance(bs[0].expr.func, ast.Name) and bs[0].expr.func.id in ("hasattr", "callable"):
+                e = bs[0].expr
+        if isinstance(e, ast.Call) and isinstance(e.func, ast.Name) and e.func.id == "hasattr" and len(e.args) == 2 and _self_attr_alias(Fr, tn, e.args[0]) == "response" and astq.const_str(e.args[1]) == "close":
+            gone.append((tn, "F"))
+        elif isinstance(e, ast.Call) and isinstance(e.func, ast.Name) and e.func.id == "callable" and len(e.args) == 1 and body_close(tn, e.args[0]):
+            gone.append((tn, "F"))
+        else:
+            nt = none_test(e)
+            if nt is not None and body_close(tn, nt[0]):
+                gone.append((tn, "F" if nt[1] == "T" else "T"))
+    skipping = Fr.cfg.exit.id in Fr.cfg.reach(avoid_nodes=bc, avoid_edges=gone)
+    return (bool(bc) and not skipping,
+            f"{len(bc)} call(s) of the close of self.response; a normal path skips them although the body has a close: {skipping} (edges on which it has none: {[norm(tn.ast) + ':' + lab for tn, lab in gone]})",
+            bc[0].ast if bc else None)
+
+
+def _generator_consumers(F: Fn) -> list[tuple[t.Any, Fn]]:
+    """(loop node, generator helper) for the `for f in self._gen(): f()` loops of F over a package generator function."""
+    out = []
+    for n in F.cfg.nodes:
+        if n.kind == "loop" and isinstance(n.ast, ast.For) and isinstance(n.ast.target, ast.Name) and isinstance(n.ast.iter, ast.Call):
+            callee = callee_of(F, n.ast.iter)
+            if callee is not None and callee is not F.fi and any(isinstance(x, (ast.Yield, ast.YieldFrom)) for x in walk_no_nested(callee.node)):
+                tgt = n.ast.target.id
+                if any(isinstance(c.func, ast.Name) and c.func.id == tgt for s_ in n.ast.body for c in astq.calls(s_, nested=False)):
+                    _saw(callee)
+                    out.append((n, fn_of(F.repo, callee)))
+    return out
+
+
+def _call_loops(F: Fn, env: dict[str, str] | None = None) -> list[tuple[t.Any, str]]:
+    """(loop node, attr) for every `for f in <self.attr>: ... f() ...` loop of the function."""
+    out = []
+    for n, G in _generator_consumers(F):
+        # the loop runs over a generator helper: what that yields from (on each of its normal paths) is what is called
+        for y in walk_no_nested(G.fi.node):
+            if isinstance(y, ast.YieldFrom):
+                yn = G.cfg.node_of(y)
+                attr = _self_attr_iterated(G, yn, y.value) if yn is not None else None
+                if attr is not None and G.cfg.exit.id not in G.cfg.reach(avoid_nodes=[yn]):
+                    out.append((n, attr))
+    for n in F.cfg.nodes:
+        if n.kind == "join" and isinstance(n.ast, ast.While):
+            m_ = _next_loop_attr(F, n, env)
+            if m_ is not None:
+                out.append((n, m_[0]))
+    for n in F.cfg.nodes:
+        if n.kind == "loop" and isinstance(n.ast, ast.For) and isinstance(n.ast.target, ast.Name):
+            attr = _self_attr_iterated(F, n, n.ast.iter, 0, env)
+            tgt = n.ast.target.id
+            if attr is not None and any(isinstance(c.func, ast.Name) and c.func.id == tgt for s_ in n.ast.body for c in astq.calls(s_, nested=False)):
+                out.append((n, attr))
+        elif n.kind == "join" and isinstance(n.ast, ast.While):
+            m_ = _index_loop_attr(F, n, env)
+            if m_ is not None:
+                out.append((n, m_[0]))
+    return out
+
+
+def _next_loop_attr(F: Fn, head, env: dict[str, str] | None) -> tuple[str, bool, str] | None:
+    """`it = iter(xs)` ... `while (f := next(it, END)) is not END: f()`: (attribute of self that xs is, the loop calls every
+    entry once and has no other way out, why not); None when the loop is not of that kind."""
+    W = head.ast
+    t_ = W.test
+    if not (isinstance(t_, ast.Compare) and len(t_.ops) == 1 and isinstance(t_.ops[0], ast.IsNot) and isinstance(t_.left, ast.NamedExpr) and isinstance(t_.left.target, ast.Name)):
+        return None
+    f, v, end = t_.left.target.id, t_.left.value, t_.comparators[0]
+    if not (isinstance(v, ast.Call) and isinstance(v.func, ast.Name) and v.func.id == "next" and len(v.args) == 2 and norm(v.args[1]) == norm(end) and isinstance(v.args[0], ast.Name)):
+        return None
+    attr = _self_attr_iterated(F, head, v.args[0], 0, env)  # iter(self.attr) bound to the local before the loop
+    if attr is None:
+        return None
+    body = list(W.body)
+    exits = [norm(x) for s_ in body for x in [s_, *walk_no_nested(s_)] if isinstance(x, (ast.Break, ast.Return, ast.Raise, ast.Continue))]
+    if exits or W.orelse:
+        return attr, False, f"early exits in the loop: {exits}"
+    if any(isinstance(x, ast.Name) and x.id in (f, v.args[0].id) and isinstance(x.ctx, ast.Store) for s_ in body for x in [s_, *walk_no_nested(s_)]):
+        return attr, False, "the entry or the iterator is rebound in the loop"
+    if any(isinstance(s_, ast.Expr) and isinstance(s_.value, ast.Call) and astq.is_name(s_.value.func, f) and not s_.value.args and not s_.value.keywords for s_ in body):
+        return attr, True, ""
+    return attr, False, "the entry is not called in every iteration"
+
+
+def _index_loop_attr(F: Fn, head, env: dict[str, str] | None) -> tuple[str, bool, str] | None:
+    """`i = 0` ... `while i < len(xs): xs[i]() ; i += 1` (the entry possibly taken into a local first): (attribute of self
+    that xs is, the loop calls every entry once in order and has no other way out, why not); None for other loops."""
+    W = head.ast
+    cp = astq.cmp_parts(W.test)
+    if cp is None:
+        return None
+    l, op, r = cp
+    if isinstance(op, ast.Gt):
+        l, op, r = r, ast.Lt(), l
+    if not (isinstance(op, (ast.Lt, ast.NotEq)) and isinstance(l, ast.Name) and isinstance(r, ast.Call) and isinstance(r.func, ast.Name) and r.func.id == "len" and len(r.args) == 1):
+        return None
+    idx, xs = l.id, r.args[0]
+    attr = _self_attr_iterated(F, head, xs, 0, env)
+    if attr is None:
+        return None
+    body = list(W.body)
+    exits = [norm(x) for s_ in body for x in [s_, *walk_no_nested(s_)] if isinstance(x, (ast.Break, ast.Return, ast.Raise, ast.Continue))]
+    if exits or W.orelse:
+        return attr, False, f"early exits in the loop: {exits}"
+    # the index: starts at 0 before the loop, is advanced by one exactly once per iteration, at the top level of the body
+    steps = [k for k, s_ in enumerate(body) if isinstance(s_, ast.AugAssign) and astq.is_name(s_.target, idx) and isinstance(s_.op, ast.Add) and isinstance(s_.value, ast.Constant) and s_.value.value == 1]
+    others = [x for s_ in body for x in [s_, *walk_no_nested(s_)] if isinstance(x, ast.Name) and x.id == idx and isinstance(x.ctx, ast.Store)]
+    if len(steps) != 1 or len(others) != 1:
+        return attr, False, f"`{idx}` is not advanced by exactly one, once per iteration"
+    ds = F.rd.reaching(head, idx)
+    outside = [d for d in ds if d.kind != "aug"]
+    if not outside or not all(d.kind == "assign" and d.index is None and isinstance(d.value, ast.Constant) and d.value.value == 0 and type(d.value.value) is int for d in outside):
+        return attr, False, f"`{idx}` does not start at 0"
+
+    def entry(e: ast.AST | None) -> bool:
+        return isinstance(e, ast.Subscript) and astq.is_name(e.slice, idx) and norm(e.value) == norm(xs)
+
+    # the entry is read before the index moves on, and called at the top level of the body
+    for k, s_ in enumerate(body):
+        if isinstance(s_, ast.Expr) and isinstance(s_.value, ast.Call) and not s_.value.args and not s_.value.keywords:
+            f = s_.value.func
+            if entry(f) and k < steps[0]:
+                return attr, True, ""
+            if isinstance(f, ast.Name):
+                reads = [j for j, s2 in enumerate(body) if isinstance(s2, ast.Assign) and len(s2.targets) == 1 and astq.is_name(s2.targets[0], f.id) and entry(s2.value)]
+                stores = [x for s2 in body for x in [s2, *walk_no_nested(s2)] if isinstance(x, ast.Name) and x.id == f.id and isinstance(x.ctx, ast.Store)]
+                if len(reads) == 1 and len(stores) == 1 and reads[0] < steps[0] and reads[0] < k:
+                    return attr, True, ""
+    return attr, False, "the entry at the index is not called in every iteration before the index moves on"
+
+
+
+def _expansions(F: Fn, at, e: ast.AST | None, depth: int = 0, names: bool = True) -> list[tuple[ast.AST | None, t.Any]]:
+    """the expressions a returned / passed value can stand for: conditional expressions are split, casts stripped, a
+    local is replaced by its plain bindings (each with the CFG node that evaluates it)."""
+    if isinstance(e, ast.IfExp) and depth < 6:
+        return _expansions(F, at, e.body, depth + 1, names) + _expansions(F, at, e.orelse, depth + 1, names)
+    if isinstance(e, ast.Call) and norm(e.func).endswith("cast") and len(e.args) == 2 and depth < 6:
+        return _expansions(F, at, e.args[1], depth + 1, names)
+    if isinstance(e, ast.Name) and depth < 6 and names:
+        bs = bindings(F, at, e)
+        if bs and all(b.kind == "value" and b.path == () and b.node is not None and b.expr is not None for b in bs):
+            out: list[tuple[ast.AST | None, t.Any]] = []
+            for b in bs:
+                out += _expansions(F, b.node, b.expr, depth + 1)
+            return out
+    return [(e, at)]
+
+
+def _loop_runs_all(F: Fn, attr: str | None, env: dict[str, str] | None = None) -> tuple[bool, str, ast.AST | None]:
+    """a `for f in self.<attr>: f()` loop that every normal path passes and that has no early exit."""
+    loops = [n for n, a in _call_loops(F, env) if attr is None or a == attr]
     if len(loops) != 1:
-        return False, f"{len(loops)} loop(s) over the callbacks", None
+        return False, f"{len(loops)} loop(s) calling the entries of self.{attr or '<callbacks>'}", None
     lp = loops[0]
+    if isinstance(lp.ast, ast.While):
+        m_ = _next_loop_attr(F, lp, env) or _index_loop_attr(F, lp, env)
+        always = F.cfg.exit.id not in F.cfg.reach(avoid_nodes=[lp])
+        good = m_ is not None and m_[1]
+        return good and always, f"loop `while {norm(lp.ast.test)}` calls each entry once, in order, with no other way out: {good}{' (' + m_[2] + ')' if m_ and m_[2] else ''}; on every normal path: {always}", lp.ast
     tgt = lp.ast.target
-    calls_it = isinstance(tgt, ast.Name) and any(isinstance(c.func, ast.Name) and c.func.id == tgt.id for s in lp.ast.body for c in astq.calls(s, nested=False))
     early = [norm(x) for s in lp.ast.body for x in [s, *walk_no_nested(s)] if isinstance(x, (ast.Break, ast.Return, ast.Raise))]
     skipped = [norm(x) for s in lp.ast.body for x in [s, *walk_no_nested(s)] if isinstance(x, ast.Continue)]
     # the call happens in every iteration: from the loop head's body edge, the head is not reached again without passing a call
-    call_nodes = [F.cfg.node_of(c) for s in lp.ast.body for c in astq.calls(s, nested=False) if isinstance(c.func, ast.Name) and isinstance(tgt, ast.Name) and c.func.id == tgt.id]
+    call_nodes = [F.cfg.node_of(c) for s in lp.ast.body for c in astq.calls(s, nested=False) if isinstance(c.func, ast.Name) and c.func.id == tgt.id]
     cns = [n for n in call_nodes if n is not None]
     starts = [n for n in F.cfg.succ(lp, "T") if not any(n is c for c in cns)]
     every_iter = bool(cns) and (not starts or lp.id not in F.cfg.reach(starts, avoid_nodes=cns))
     always = F.cfg.exit.id not in F.cfg.reach(avoid_nodes=[lp])
-    ok = calls_it and not early and every_iter and always
-    return ok, f"loop `{lp.text()}` calls each entry: {calls_it and every_iter}; early exits in the loop: {early + skipped}; on every normal path: {always}", lp.ast
+    ok = not early and every_iter and always
+    return ok, f"loop `{lp.text()}` calls each entry: {every_iter}; early exits in the loop: {early + skipped}; on every normal path: {always}", lp.ast
+
+
+# -- "this list expression holds X whenever X exists" ----------------------
+#
+# leaf(F, at, e)       : e (evaluated in CFG node `at`) is X itself
+# absent(F, at, e)     : the truth value of condition atom e that means "there is no X" (True / False), or None
+#
+# The evaluator follows list displays, starred items, list()/tuple() copies, concatenation, conditional expressions,
+# local names (every reaching binding), `+=`, and in-place insert/append/extend between a binding and the use.  A binding
+# that does not hold X is harmless only if it is made where X is known to be absent, or if the use cannot be reached from
+# it except through an in-place addition, a rebinding, or an edge on which X is absent.
+
+
+def _absent_edges(F: Fn, absent) -> list[tuple[t.Any, str]]:
+    out = []
+    for tn in F.cfg.tests():
+        if tn.kind != "test":
+            continue
+        v = absent(F, tn, tn.ast)
+        if v is not None:
+            out.append((tn, "T" if v else "F"))
+    return out
+
+
+def _defs_of(F: Fn, ident: str) -> list[t.Any]:
+    return [d for n in F.cfg.nodes for d in F.rd.gen[n.id] if d.name == ident]
+
+
+def _list_has(F: Fn, at, e: ast.AST | None, leaf, absent, depth: int = 0) -> tuple[bool, str]:
+    if e is None or depth > 8:
+        return False, "unknown value"
+    if leaf(F, at, e):
+        return True, f"`{norm(e)[:40]}`"
+    if isinstance(e, ast.Starred):
+        return _list_has(F, at, e.value, leaf, absent, depth + 1)
+    if isinstance(e, ast.NamedExpr):
+        return _list_has(F, at, e.value, leaf, absent, depth + 1)
+    if isinstance(e, (ast.List, ast.Tuple, ast.Set)):
+        for x in e.elts:
+            ok, why = _list_has(F, at, x, leaf, absent, depth + 1)
+            if ok:
+                return True, f"item {why} of `{norm(e)[:50]}`"
+        return False, f"`{norm(e)[:50]}` has no such item"
+    if isinstance(e, ast.Call) and isinstance(e.func, ast.Name) and e.func.id in ("list", "tuple", "iter") and len(e.args) == 1 and not e.keywords:
+        return _list_has(F, at, e.args[0], leaf, absent, depth + 1)
+    if isinstance(e, ast.Call) and norm(e.func).endswith("cast") and len(e.args) == 2:
+        return _list_has(F, at, e.args[1], leaf, absent, depth + 1)
+    if isinstance(e, ast.BoolOp) and isinstance(e.op, ast.Or) and all(is_empty_literal(x) for x in e.values[1:]):
+        return _list_has(F, at, e.values[0], leaf, absent, depth + 1)  # `xs or ()`: falsy means nothing to hold
+    if isinstance(e, ast.Call) and depth < 6:
+        # one level of helper extraction: the list is built by a package helper; what the helper says about its
+        # parameters is read as a statement about the arguments passed here
+        callee = callee_of(F, e)
+        if callee is not None and callee is not F.fi and not any(isinstance(x, (ast.Yield, ast.YieldFrom)) for x in walk_no_nested(callee.node)):
+            amap = call_args(callee, e)
+            Fc = fn_of(F.repo, callee)
+
+            def back(F2: Fn, at2, x: ast.AST) -> ast.AST | None:
+                """x with the helper's (unrebound) parameters replaced by the caller's arguments; None if x mentions other locals."""
+                if F2 is not Fc:
+                    return None
+                for n_ in ast.walk(x):
+                    if isinstance(n_, ast.Name) and isinstance(n_.ctx, ast.Load):
+                        ds = Fc.rd.reaching(at2, n_.id)
+                        if ds and not (all(d.kind == "param" for d in ds) and n_.id in amap):
+                            return None
+                fresh = ast.parse(ast.unparse(x), mode="eval").body
+
+                class Sub(ast.NodeTransformer):
+                    def visit_Name(self, n_: ast.Name):  # noqa: N802
+                        return amap[n_.id] if n_.id in amap and Fc.rd.reaching(at2, n_.id) else n_
+
+                return Sub().visit(fresh)
+
+            def leaf2(F2: Fn, at2, x: ast.AST) -> bool:
+                y = back(F2, at2, x)
+                return y is not None and leaf(F, at, y)
+
+            def absent2(F2: Fn, at2, x: ast.AST) -> bool | None:
+                y = back(F2, at2, x)
+                return absent(F, at, y) if y is not None else None
+
+            rets = astq.returns_of(callee.node)
+            if rets:
+                edges = _absent_edges(Fc, absent2)
+                whys = set()
+                for r in rets:
+                    rn = Fc.node(r)
+                    if any(Fc.cfg.edge_dominates(tn, lab, rn) for tn, lab in edges):
+                        continue  # returned where there is nothing to hold
+                    ok, why = _list_has(Fc, rn, r.value, leaf2, absent2, depth + 2)
+                    if not ok:
+                        return False, f"{callee.qualname}: `{norm(r)}`: {why}"
+                    whys.add(why)
+                _saw(callee)
+                return True, f"{callee.qualname}() -> " + " | ".join(sorted(whys))
+    if isinstance(e, ast.BinOp) and isinstance(e.op, ast.Add):
+        a = _list_has(F, at, e.left, leaf, absent, depth + 1)
+        if a[0]:
+            return a
+        return _list_has(F, at, e.right, leaf, absent, depth + 1)
+    if isinstance(e, ast.IfExp):
+        test, sides = e.test, {True: e.body, False: e.orelse}
+        while isinstance(test, ast.UnaryOp) and isinstance(test.op, ast.Not):
+            test, sides = test.operand, {True: sides[False], False: sides[True]}
+        gone = absent(F, at, test)
+        whys = []
+        for v, side in sides.items():
+            if gone is not None and v == gone:
+                continue
+            ok, why = _list_has(F, at, side, leaf, absent, depth + 1)
+            if not ok:
+                return False, why
+            whys.append(why)
+        return True, " / ".join(whys)
+    if isinstance(e, ast.Name):
+        defs = F.rd.reaching(at, e.id)
+        if not defs:
+            return False, f"`{e.id}` has no local binding"
+        if any(not _is_insertion_slice(sl, e.id) for _, sl, _ in _slice_stores(F, e.id)):
+            return False, f"`{e.id}` is partly overwritten by an item / slice assignment (not modelled)"
+        edges = _absent_edges(F, absent)
+        events = _add_events(F, e.id, leaf, absent, depth)
+        everyone = _defs_of(F, e.id)
+        whys = set()
+        for d in defs:
+            if d.kind in ("assign", "walrus") and d.index is None and d.value is not None and d.node is not None:
+                ok, why = _list_has(F, d.node, d.value, leaf, absent, depth + 1)
+                if ok:
+                    whys.add(why)
+                    continue
+            elif d.kind == "aug" and d.value is not None and d.node is not None:
+                ok, why = _list_has(F, d.node, d.value, leaf, absent, depth + 1)
+                if not ok:
+                    ok, why = _list_has(F, d.node, e, leaf, absent, depth + 1)  # what it held before the `+=`
+                if ok:
+                    whys.add(why)
+                    continue
+            if d.node is not None and any(F.cfg.edge_dominates(tn, lab, d.node) for tn, lab in edges):
+                whys.add("bound where there is nothing to hold")
+                continue
+            avoid = [x for x in events if x is not at] + [o.node for o in everyone if o.node is not None and o.node is not d.node and o.node is not at]
+            r = F.cfg.reach(d.node, avoid_nodes=avoid, avoid_edges=edges)
+            if at.id in r and at is not d.node:
+                what = "the parameter" if d.kind == "param" else f"`{norm(d.value)[:40]}` (L{d.node.lineno})" if d.value is not None and d.node is not None else d.kind
+                return False, f"`{e.id}` bound to {what} reaches L{at.lineno} without it being added"
+            whys.add("added in place before the use")
+        return True, " | ".join(sorted(whys))
+    return False, f"`{norm(e)[:50]}` does not hold it"
+
+
+def _add_events(F: Fn, ident: str, leaf, absent, depth: int) -> list[t.Any]:
+    """CFG nodes that add X in place to the list held by local `ident`."""
+    out = []
+    for c in astq.calls(F.fi.node, nested=False):
+        f = c.func
+        if not (isinstance(f, ast.Attribute) and astq.is_name(f.value, ident) and c.args):
+            continue
+        cn = F.cfg.node_of(c)
+        if cn is None:
+            continue
+        if f.attr in ("insert", "append") and _list_has(F, cn, ast.List(elts=[c.args[-1]], ctx=ast.Load()), leaf, absent, depth + 1)[0]:
+            out.append(cn)
+        elif f.attr in ("extend", "__iadd__") and _list_has(F, cn, c.args[-1], leaf, absent, depth + 1)[0]:
+            out.append(cn)
+    for n, sl, val in _slice_stores(F, ident):
+        # `xs[:0] = [x]` / `xs[len(xs):] = [x]`: an insertion that removes nothing
+        if _is_insertion_slice(sl, ident) and _list_has(F, n, val, leaf, absent, depth + 1)[0]:
+            out.append(n)
+    return out
+
+
+def _slice_stores(F: Fn, ident: str) -> list[tuple[t.Any, ast.AST, ast.AST]]:
+    out = []
+    for n in F.cfg.nodes:
+        if isinstance(n.ast, ast.Assign):
+            for tg in n.ast.targets:
+                if isinstance(tg, ast.Subscript) and astq.is_name(tg.value, ident):
+                    out.append((n, tg.slice, n.ast.value))
+    return out
+
+
+def _is_insertion_slice(sl: ast.AST, ident: str) -> bool:
+    if not isinstance(sl, ast.Slice) or sl.step is not None:
+        return False
+    lo, hi = sl.lower, sl.upper
+    zero = lambda x: x is None or (isinstance(x, ast.Constant) and x.value == 0)  # noqa: E731
+    if hi is not None and isinstance(hi, ast.Constant) and hi.value == 0 and zero(lo):
+        return True  # xs[:0] / xs[0:0]
+    is_len = isinstance(lo, ast.Call) and isinstance(lo.func, ast.Name) and lo.func.id == "len" and len(lo.args) == 1 and astq.is_name(lo.args[0], ident)
+    return bool(is_len and hi is None)  # xs[len(xs):]
 
 
 def _r56(ctx: Ctx) -> None:
@@ -1208,141 +2617,262 @@ def _r56(ctx: Ctx) -> None:
     gai = method(repo, resp, "get_app_iter")
     F = fn_of(repo, gai)
     rets = astq.returns_of(gai.node)
-    ctx.floor("R5.6", "returns of get_app_iter", len(rets), 2)
+    ctx.floor("R5.6", "returns of get_app_iter", len(rets), 1)
+    AL = Aliases(F.cfg, F.rd)
+
+    def is_close(F_: Fn, at_, x: ast.AST) -> bool:
+        return is_self_attr(x, "close")
+
+    def never(F_: Fn, at_, x: ast.AST) -> bool | None:
+        return None
+
     for r in rets:
         rn = F.node(r)
-        ca = _closing_iterator_arg(F, r.value)
-        if ca is not None:
-            cb = ca[1]
-            elts = cb.elts if isinstance(cb, (ast.List, ast.Tuple)) else [cb] if cb is not None else []
-            ok = any(is_self_attr(x, "close") for x in elts)
-            ctx.ob("R5.6", f"get_app_iter: `{norm(r)}` chains Response.close", ok, f"callbacks argument `{norm(cb) if cb is not None else None}` contains self.close: {ok}", gai, r, f"closing iterator callbacks {norm(cb) if cb is not None else None}")
-            continue
-        g = _gtext(F, rn)
-        pt = any(x in ("self.direct_passthrough:T",) for x in g)
-        what = norm(r.value) if r.value is not None else "None"
-        cons = f"raw return {what} under direct_passthrough" if pt and is_self_attr(r.value, "response") else f"raw return {what} under {g}"
-        ctx.ob("R5.6", f"get_app_iter: `{norm(r)}` chains Response.close", False,
-               f"the server gets `{what}` itself{' (direct_passthrough)' if pt else ''}: closing it never reaches Response.close, so callbacks registered with call_on_close do not run (guards {g})", gai, r, cons)
+        for v, vn in _expansions(F, rn, r.value):
+            ca = _closing_iterator_arg(F, v)
+            if ca is not None:
+                cb = ca[1]
+                ok, why = _list_has(F, vn, ast.List(elts=[cb], ctx=ast.Load()), is_close, never) if cb is not None else (False, "no callbacks argument")
+                ctx.ob("R5.6", f"get_app_iter: `{norm(r)}` chains Response.close", ok, f"callbacks argument `{norm(cb) if cb is not None else None}` contains self.close: {ok} ({why})", gai, r, f"closing iterator callbacks {norm(cb) if cb is not None else None}")
+                continue
+            g = _gtext(F, vn)  # where the value is produced: the return itself, or the binding of the result variable
+            pt = guard_has(AL.guard_set(vn), "self.direct_passthrough", True)
+            what = norm(v) if v is not None else "None"
+            cons = f"raw return {what} under direct_passthrough" if pt and is_self_attr(v, "response") else f"raw return {what} under {g}"
+            ctx.ob("R5.6", f"get_app_iter: `{norm(r)}` chains Response.close", False,
+                   f"the server gets `{what}` itself{' (direct_passthrough)' if pt else ''}: closing it never reaches Response.close, so callbacks registered with call_on_close do not run (guards {g})", gai, r, cons)
 
     ci = repo.cls("wsgi.ClosingIterator")
     close = method(repo, ci, "close")
     init = method(repo, ci, "__init__")
     Fc = fn_of(repo, close)
-    ok, fact, node = _loop_runs_all(Fc, lambda e: is_self_attr(e, "_callbacks"))
-    ctx.ob("R5.6", "ClosingIterator.close runs every callback", ok, fact, close, node or close.node, "closing iterator close loop")
+    cparts = [(Fc, None)] + _unconditional_helpers(Fc)
+    attrs = sorted({a for Fx, env_ in cparts for _, a in _call_loops(Fx, env_)})
+    if len(attrs) != 1:
+        raise AnalysisError(f"ClosingIterator.close: expected one loop calling the entries of one attribute, found {attrs} (slot)")
+    cattr = attrs[0]
+    ctried = [(Fx, *_loop_runs_all(Fx, cattr, env_)) for Fx, env_ in cparts]
+    cbest = next((x for x in ctried if x[1]), next((x for x in ctried if x[3] is not None), ctried[0]))
+    ctx.ob("R5.6", "ClosingIterator.close runs every callback", cbest[1], cbest[2], close, cbest[3] if cbest[0] is Fc and cbest[3] is not None else close.node, "closing iterator close loop")
     Fi = fn_of(repo, init)
     ps = init.params
     if len(ps) < 3:
         raise AnalysisError("ClosingIterator.__init__: (self, iterable, callbacks) parameters not found (slot)")
     p_it, p_cb = ps[1], ps[2]
-    stores = [n for n in Fi.cfg.nodes if isinstance(n.ast, (ast.Assign, ast.AnnAssign)) and any(is_self_attr(x, "_callbacks") for x in (n.ast.targets if isinstance(n.ast, ast.Assign) else [n.ast.target]))]
-    if len(stores) != 1 or not isinstance(stores[0].ast.value, ast.Name):
-        raise AnalysisError("ClosingIterator.__init__: single `self._callbacks = <local>` store not found (slot)")
-    st = stores[0]
-    lst = st.ast.value.id
-    dropped = []
-    for d in Fi.rd.reaching(st, lst):
-        if d.kind == "param" and d.name == p_cb:
-            continue
-        mentions = d.value is not None and any(isinstance(x, ast.Name) and x.id == p_cb for x in ast.walk(d.value))
-        absent = False
-        if d.node is not None:
-            for t, lab in Fi.cfg.guards(d.node):
-                nt = none_test(t.ast) if t.kind == "test" else None
-                if nt and astq.is_name(nt[0], p_cb) and nt[1] != lab:
-                    absent = True
-        if not (mentions or absent):
-            dropped.append(norm(d.value) if d.value is not None else d.kind)
-    ctx.ob("R5.6", "ClosingIterator.__init__ keeps the callbacks it is given", not dropped, f"bindings of `{lst}` stored into self._callbacks that neither contain `{p_cb}` nor sit under `{p_cb} is None`: {dropped}", init, st.ast, "closing iterator keeps callbacks")
-    adds = []
-    for c in astq.calls(init.node, nested=False):
-        f = c.func
-        if isinstance(f, ast.Attribute) and astq.is_name(f.value, lst) and f.attr in ("insert", "append") and c.args and isinstance(c.args[-1], ast.Name):
-            cn = Fi.node(c)
-            bs = bindings(Fi, cn, c.args[-1])
-            own = bool(bs) and all(b.kind == "value" and isinstance(b.expr, ast.Call) and isinstance(b.expr.func, ast.Name) and b.expr.func.id == "getattr" and len(b.expr.args) >= 2 and astq.is_name(b.expr.args[0], p_it) and astq.const_str(b.expr.args[1]) == "close" for b in bs)
-            if own:
-                adds.append((c, cn))
-    ok = len(adds) == 1
-    fact = f"{len(adds)} insertion(s) of getattr({p_it}, 'close', ..) into `{lst}`"
-    if ok:
-        c, cn = adds[0]
-        cname = c.args[-1].id
-        absent_edges = []
-        extra = []
-        for t, lab in Fi.cfg.guards(cn):
-            nt = none_test(t.ast) if t.kind == "test" else None
-            if nt and astq.is_name(nt[0], cname) and nt[1] == lab:
-                absent_edges.append((t, "F" if lab == "T" else "T"))
-            else:
-                extra.append(f"{norm(t.ast)}:{lab}")
-        skipping = st.id in Fi.cfg.reach(avoid_nodes=[cn], avoid_edges=absent_edges)
-        same = Fi.rd.reaching(cn, lst) <= Fi.rd.reaching(st, lst)
-        ok = not extra and not skipping and same
-        fact = f"`{norm(c)}`: conditions other than the close attribute existing: {extra}; the store of self._callbacks is reachable without it although the iterable has a close: {skipping}; it is the stored list: {same}"
-    ctx.ob("R5.6", "ClosingIterator.__init__ adds the wrapped iterable's own close", ok, fact, init, adds[0][0] if adds else init.node, "closing iterator own close")
+    stores = [n for n in Fi.cfg.nodes if isinstance(n.ast, (ast.Assign, ast.AnnAssign)) and getattr(n.ast, "value", None) is not None and any(is_self_attr(x, cattr) for x in (n.ast.targets if isinstance(n.ast, ast.Assign) else [n.ast.target]))]
+    if not stores:
+        raise AnalysisError(f"ClosingIterator.__init__: no `self.{cattr} = ...` store found (slot)")
+
+    def is_param(F_: Fn, at_, x: ast.AST, name: str) -> bool:
+        if not astq.is_name(x, name):
+            return False
+        ds = F_.rd.reaching(at_, name)
+        return bool(ds) and all(d.kind == "param" for d in ds)
+
+    def leaf_cb(F_: Fn, at_, x: ast.AST) -> bool:
+        return is_param(F_, at_, x, p_cb)
+
+    def absent_cb(F_: Fn, at_, x: ast.AST) -> bool | None:
+        nt = none_test(x)
+        if nt is not None and is_param(F_, at_, nt[0], p_cb):
+            return nt[1] != "T"
+        return None
+
+    def leaf_own(F_: Fn, at_, x: ast.AST, depth: int = 0) -> bool:
+        if isinstance(x, ast.NamedExpr):
+            x = x.value
+        if isinstance(x, ast.Call) and isinstance(x.func, ast.Name) and x.func.id == "getattr" and len(x.args) >= 2 and is_param(F_, at_, x.args[0], p_it) and astq.const_str(x.args[1]) == "close":
+            return True
+        if isinstance(x, ast.Attribute) and x.attr == "close" and is_param(F_, at_, x.value, p_it):
+            return True
+        if isinstance(x, ast.Name) and depth < 4:
+            bs = bindings(F_, at_, x)
+            return bool(bs) and all(b.kind == "value" and b.path == () and b.node is not None and b.expr is not None and leaf_own(F_, b.node, b.expr, depth + 1) for b in bs)
+        return False
+
+    def absent_own(F_: Fn, at_, x: ast.AST) -> bool | None:
+        if isinstance(x, ast.Call) and isinstance(x.func, ast.Name) and x.func.id == "hasattr" and len(x.args) == 2 and is_param(F_, at_, x.args[0], p_it) and astq.const_str(x.args[1]) == "close":
+            return False
+        if isinstance(x, ast.Call) and isinstance(x.func, ast.Name) and x.func.id == "callable" and len(x.args) == 1 and leaf_own(F_, at_, x.args[0]):
+            return False
+        nt = none_test(x)
+        if nt is not None and leaf_own(F_, at_, nt[0]):
+            return nt[1] != "T"
+        return None
+
+    keeps, owns = [], []
+    for st in stores:
+        use, v = st, st.ast.value
+        if isinstance(v, ast.Name):
+            # the attribute shares the list with the local: additions after the store count as long as the local is not
+            # rebound before the function ends, so the list is judged where the function ends
+            later = Fi.cfg.reach(st)
+            if not any(d.node is not None and d.node is not st and d.node.id in later for d in _defs_of(Fi, v.id)) and Fi.rd.reaching(Fi.cfg.exit, v.id):
+                use = Fi.cfg.exit
+        for leaf_, absent_, acc in ((leaf_cb, absent_cb, keeps), (leaf_own, absent_own, owns)):
+            res = _list_has(Fi, use, v, leaf_, absent_)
+            if not res[0]:
+                # added in place through the attribute itself after the store: `self._callbacks.insert(0, close)`
+                evs = []
+                for c in astq.calls(init.node, nested=False):
+                    f = c.func
+                    cn = Fi.cfg.node_of(c)
+                    if not (isinstance(f, ast.Attribute) and is_self_attr(f.value, cattr) and c.args and cn is not None):
+                        continue
+                    if f.attr in ("insert", "append") and _list_has(Fi, cn, ast.List(elts=[c.args[-1]], ctx=ast.Load()), leaf_, absent_)[0]:
+                        evs.append(cn)
+                    elif f.attr == "extend" and _list_has(Fi, cn, c.args[-1], leaf_, absent_)[0]:
+                        evs.append(cn)
+                others = [o for o in stores if o is not st]
+                if evs and Fi.cfg.exit.id not in Fi.cfg.reach(st, avoid_nodes=evs + others, avoid_edges=_absent_edges(Fi, absent_)):
+                    res = (True, f"added to self.{cattr} in place after the store")
+            acc.append(res)
+    st0 = stores[0]
+    ctx.ob("R5.6", "ClosingIterator.__init__ keeps the callbacks it is given", all(k[0] for k in keeps),
+           f"what is stored into self.{cattr} holds `{p_cb}` (a single callable as an item, an iterable spread) unless `{p_cb}` is None: " + "; ".join(f"`{norm(s_.ast)}`: {k[1]}" for s_, k in zip(stores, keeps)), init, st0.ast, "closing iterator keeps callbacks")
+    ctx.ob("R5.6", "ClosingIterator.__init__ adds the wrapped iterable's own close", all(k[0] for k in owns),
+           f"what is stored into self.{cattr} holds getattr({p_it}, 'close', ..) whenever that exists: " + "; ".join(f"`{norm(s_.ast)}`: {k[1]}" for s_, k in zip(stores, owns)), init, st0.ast, "closing iterator own close")
+
+    coc = method(repo, resp, "call_on_close")
+    Fo = fn_of(repo, coc)
+    regs_ = []
+    for c in astq.calls(coc.node, nested=False):
+        if isinstance(c.func, ast.Attribute) and len(coc.params) > 1 and _appends_item(c, coc.params[1], Fo):
+            a = _self_attr_alias(Fo, Fo.node(c), c.func.value)
+            if a is not None:
+                regs_.append((c, a))
+    if not regs_ and len(coc.params) > 1:
+        # the append lives in a private helper that is handed the function
+        for c in astq.calls(coc.node, nested=False):
+            callee = callee_of(Fo, c)
+            if callee is None or callee is coc:
+                continue
+            inner = [p_ for p_, a in call_args(callee, c).items() if astq.is_name(a, coc.params[1])]
+            Fq = fn_of(repo, callee)
+            for c2 in astq.calls(callee.node, nested=False):
+                if isinstance(c2.func, ast.Attribute) and any(_appends_item(c2, p_) and all(d.kind == "param" for d in Fq.rd.reaching(Fq.node(c2), p_)) for p_ in inner):
+                    a = _self_attr_alias(Fq, Fq.node(c2), c2.func.value)
+                    if a is not None and Fq.cfg.exit.id not in Fq.cfg.reach(avoid_nodes=[Fq.node(c2)]):
+                        ctx.saw(callee)
+                        regs_.append((c, a))
+    on_close_attr = regs_[0][1] if regs_ else "_on_close"
+    always = bool(regs_) and Fo.cfg.exit.id not in Fo.cfg.reach(avoid_nodes=[Fo.node(c) for c, _ in regs_])
+    ctx.ob("R5.6", "call_on_close registers the function in self._on_close", bool(regs_) and always, f"appends its argument to self.{on_close_attr}: {bool(regs_)}; on every path: {always}", coc, coc.node, "call_on_close registers")
 
     rc = method(repo, resp, "close")
     Fr = fn_of(repo, rc)
-    ok, fact, node = _loop_runs_all(Fr, lambda e: is_self_attr(e, "_on_close"))
-    ctx.ob("R5.6", "Response.close runs every registered callback", ok, fact, rc, node or rc.node, "response close loop")
-    bc = [c for c in astq.calls(rc.node, nested=False) if isinstance(c.func, ast.Attribute) and c.func.attr == "close" and is_self_attr(c.func.value, "response") and not c.args]
-    ok = len(bc) == 1
-    fact = f"{len(bc)} call(s) of self.response.close()"
-    if ok:
-        cn = Fr.node(bc[0])
-        has_edges, extra = [], []
-        for t, lab in Fr.cfg.guards(cn):
-            e = t.ast
-            is_has = isinstance(e, ast.Call) and isinstance(e.func, ast.Name) and e.func.id == "hasattr" and len(e.args) == 2 and is_self_attr(e.args[0], "response") and astq.const_str(e.args[1]) == "close"
-            if is_has and lab == "T":
-                has_edges.append((t, "F"))
-            else:
-                extra.append(f"{norm(e)}:{lab}")
-        skipping = Fr.cfg.exit.id in Fr.cfg.reach(avoid_nodes=[cn], avoid_edges=has_edges)
-        ok = not extra and not skipping
-        fact = f"`self.response.close()` conditions other than hasattr(self.response, 'close'): {extra}; a normal path skips it although the body has a close: {skipping}"
-    ctx.ob("R5.6", "Response.close closes the body iterable", ok, fact, rc, bc[0] if bc else rc.node, "response close closes body")
-    coc = method(repo, resp, "call_on_close")
-    ok = any(isinstance(c.func, ast.Attribute) and c.func.attr == "append" and is_self_attr(c.func.value, "_on_close") and len(c.args) == 1 and len(coc.params) > 1 and astq.is_name(c.args[0], coc.params[1]) for c in astq.calls(coc.node, nested=False))
-    always = False
-    if ok:
-        Fo = fn_of(repo, coc)
-        an = [Fo.node(c) for c in astq.calls(coc.node, nested=False) if isinstance(c.func, ast.Attribute) and c.func.attr == "append" and is_self_attr(c.func.value, "_on_close")]
-        always = Fo.cfg.exit.id not in Fo.cfg.reach(avoid_nodes=an)
-    ctx.ob("R5.6", "call_on_close registers the function in self._on_close", ok and always, f"appends its argument to self._on_close: {ok}; on every path: {always}", coc, coc.node, "call_on_close registers")
+    # the two duties of close(), each done in close() itself or in a helper that close() calls on every normal path
+    parts = [(Fr, None)] + _unconditional_helpers(Fr)  # type: ignore[list-item]
+    # a generator helper whose items close() calls one by one in a loop that every normal path runs to the end
+    gparts = [(G, None) for n, G in _generator_consumers(Fr) if Fr.cfg.exit.id not in Fr.cfg.reach(avoid_nodes=[n])
+              and not any(isinstance(x, (ast.Break, ast.Return, ast.Raise, ast.Continue)) for s_ in n.ast.body for x in [s_, *walk_no_nested(s_)])]
+    tried = [(Fx, *_loop_runs_all(Fx, on_close_attr, env_)) for Fx, env_ in parts]
+    best = next((x for x in tried if x[1]), next((x for x in tried if x[3] is not None), tried[0]))
+    ctx.ob("R5.6", "Response.close runs every registered callback", best[1], best[2] + ("" if best[0] is Fr else f" (in {best[0].fi.qualname}, which close() always calls)"), rc, best[3] if best[0] is Fr and best[3] is not None else rc.node, "response close loop")
+    tried2 = [(Fx, *_closes_body(Fx)) for Fx, _ in parts + gparts]  # type: ignore[operator]
+    best2 = next((x for x in tried2 if x[1]), next((x for x in tried2 if x[3] is not None), tried2[0]))
+    ctx.ob("R5.6", "Response.close closes the body iterable", best2[1], best2[2] + ("" if best2[0] is Fr else f" (in {best2[0].fi.qualname}, which close() always calls)"), rc, best2[3] if best2[0] is Fr and best2[3] is not None else rc.node, "response close closes body")
 
     ms = method(repo, resp, "make_sequence")
     Fm = fn_of(repo, ms)
-    repl = [n for n in Fm.cfg.nodes if isinstance(n.ast, ast.Assign) and any(is_self_attr(x, "response") for x in n.ast.targets)]
+    repl = [n for n in Fm.cfg.nodes if isinstance(n.ast, ast.Assign) and any(is_self_attr(x, "response") or (isinstance(x, (ast.Tuple, ast.List)) and any(is_self_attr(y, "response") for y in x.elts)) for x in n.ast.targets)]
     ctx.floor("R5.6", "replacements of self.response in make_sequence", len(repl), 1)
+
+    def captured_by_helper(rp_) -> str | None:
+        """`close, self.response = self._helper()`: the helper returns (getattr(self.response, "close", None), new body):
+        the name that receives the old iterable's close, or None."""
+        tg = rp_.ast.targets[0] if len(rp_.ast.targets) == 1 else None
+        if not isinstance(tg, (ast.Tuple, ast.List)) or any(isinstance(x, ast.Starred) for x in tg.elts):
+            return None
+        callee = callee_of(Fm, rp_.ast.value)
+        if callee is None:
+            return None
+        Fq = fn_of(repo, callee)
+        rets = astq.returns_of(callee.node)
+        for i, x in enumerate(tg.elts):
+            if not isinstance(x, ast.Name):
+                continue
+            good = bool(rets)
+            for r in rets:
+                v = r.value
+                if not (isinstance(v, ast.Tuple) and len(v.elts) == len(tg.elts) and isinstance(v.elts[i], ast.Name)):
+                    good = False
+                    break
+                bs = bindings(Fq, Fq.node(r), v.elts[i])
+                if not (bs and all(b.kind == "value" and b.path == () and isinstance(b.expr, ast.Call) and isinstance(b.expr.func, ast.Name) and b.expr.func.id == "getattr" and len(b.expr.args) >= 2
+                                   and _self_attr_alias(Fq, b.node, b.expr.args[0]) == "response" and astq.const_str(b.expr.args[1]) == "close" for b in bs)):
+                    good = False
+                    break
+            if good:
+                ctx.saw(callee)
+                return x.id
+        return None
+
+    def registers(Fx: Fn, ident: str, depth: int = 0) -> tuple[list[t.Any], list[tuple[t.Any, str]]]:
+        """(nodes of Fx that register the value of local `ident` as a close callback, edges on which it is None)."""
+        regs = []
+        for c in astq.calls(Fx.fi.node, nested=False):
+            f = c.func
+            cn = Fx.cfg.node_of(c)
+            if cn is None:
+                continue
+            direct = isinstance(f, ast.Attribute) and ((f.attr == "call_on_close" and astq.is_name(f.value, "self")) or (f.attr == "append" and _self_attr_alias(Fx, cn, f.value) == on_close_attr))
+            if direct and len(c.args) == 1 and astq.is_name(c.args[0], ident):
+                regs.append(cn)
+            elif not direct and depth < 1 and any(astq.is_name(a, ident) for a in [*c.args, *[k.value for k in c.keywords]]):
+                # a private helper that registers its parameter unless that is None
+                callee = callee_of(Fx, c)
+                if callee is None or callee is Fx.fi:
+                    continue
+                Fq = fn_of(repo, callee)
+                for p_, a in call_args(callee, c).items():
+                    if astq.is_name(a, ident):
+                        r2, gone2 = registers(Fq, p_, depth + 1)
+                        unrebound = all(all(d.kind == "param" for d in Fq.rd.reaching(x, p_)) for x in r2)
+                        if r2 and unrebound and Fq.cfg.exit.id not in Fq.cfg.reach(avoid_nodes=r2, avoid_edges=gone2):
+                            ctx.saw(callee)
+                            regs.append(cn)
+        gone = []
+        for tn in Fx.cfg.tests():
+            nt = none_test(tn.ast) if tn.kind == "test" else None
+            if nt and astq.is_name(nt[0], ident):
+                gone.append((tn, "F" if nt[1] == "T" else "T"))
+        return regs, gone
+
+    try_caps: dict[str, set[t.Any]] = {}
+
+    def close_of_body(at_, x: ast.AST | None) -> bool:
+        if isinstance(x, ast.Call) and isinstance(x.func, ast.Name) and x.func.id == "getattr" and len(x.args) >= 2 and _self_attr_alias(Fm, at_, x.args[0]) == "response" and astq.const_str(x.args[1]) == "close":
+            return True
+        return isinstance(x, ast.Attribute) and x.attr == "close" and _self_attr_alias(Fm, at_, x.value) == "response"
+
     for rp in repl:
-        caps = [n for n in Fm.cfg.nodes if isinstance(n.ast, ast.Assign) and len(n.ast.targets) == 1 and isinstance(n.ast.targets[0], ast.Name) and isinstance(n.ast.value, ast.Call) and isinstance(n.ast.value.func, ast.Name) and n.ast.value.func.id == "getattr"
-                and len(n.ast.value.args) >= 2 and is_self_attr(n.ast.value.args[0], "response") and astq.const_str(n.ast.value.args[1]) == "close" and n is not rp and Fm.cfg.node_dominates(n, rp)]
-        ok = bool(caps)
+        caps = []
+        # `try: close = self.response.close / except AttributeError: close = None`: the local holds the close or None
+        for nm in sorted({d.name for n in Fm.cfg.nodes for d in Fm.rd.gen[n.id] if d.kind == "assign" and d.node is not None and d.node is not rp and close_of_body(d.node, d.value)}):
+            ds = Fm.rd.reaching(rp, nm)
+            if ds and all(d.kind == "assign" and d.index is None and d.node is not None and d.node is not rp and (close_of_body(d.node, d.value) or astq.is_none(d.value)) for d in ds) and len(ds) > 1:
+                try_caps[nm] = {d.node for d in ds}
+        for n in Fm.cfg.nodes:
+            if isinstance(n.ast, (ast.Assign, ast.AnnAssign)) and getattr(n.ast, "value", None) is not None and n is not rp and Fm.cfg.node_dominates(n, rp):
+                tg = n.ast.targets[0] if isinstance(n.ast, ast.Assign) and len(n.ast.targets) == 1 else getattr(n.ast, "target", None)
+                v = n.ast.value
+                if isinstance(tg, ast.Name) and isinstance(v, ast.Call) and isinstance(v.func, ast.Name) and v.func.id == "getattr" and len(v.args) >= 2 and _self_attr_alias(Fm, n, v.args[0]) == "response" and astq.const_str(v.args[1]) == "close":
+                    caps.append(n)
+        via = captured_by_helper(rp) if not caps else None
+        tried_name = next(iter(sorted(try_caps)), None) if not caps and via is None else None
+        ok = bool(caps) or via is not None or tried_name is not None
         fact = "the old iterable's close is not captured before the replacement"
         if ok:
-            cap = caps[-1]
-            cname = cap.ast.targets[0].id
-            regs = []
-            for c in astq.calls(ms.node, nested=False):
-                f = c.func
-                is_reg = (isinstance(f, ast.Attribute) and f.attr == "call_on_close" and astq.is_name(f.value, "self")) or (isinstance(f, ast.Attribute) and f.attr == "append" and is_self_attr(f.value, "_on_close"))
-                if is_reg and len(c.args) == 1 and astq.is_name(c.args[0], cname):
-                    cn = Fm.node(c)
-                    if {d.node for d in Fm.rd.reaching(cn, cname)} == {cap}:
-                        regs.append(cn)
-            absent = []
-            for t in Fm.cfg.tests():
-                nt = none_test(t.ast) if t.kind == "test" else None
-                if nt and astq.is_name(nt[0], cname):
-                    absent.append((t, "F" if nt[1] == "T" else "T"))
+            cap = caps[-1] if caps else rp
+            cname = tried_name if tried_name is not None else via if via is not None else (cap.ast.targets[0] if isinstance(cap.ast, ast.Assign) else cap.ast.target).id
+            regs, absent = registers(Fm, cname)
+            capset = try_caps[tried_name] if tried_name is not None else {cap}
+            regs = [cn for cn in regs if {d.node for d in Fm.rd.reaching(cn, cname)} == capset]
             lost = Fm.cfg.exit.id in Fm.cfg.reach(rp, avoid_nodes=regs, avoid_edges=absent)
             ok = bool(regs) and not lost
             fact = f"`{norm(cap.ast)}` before the replacement; registered with call_on_close afterwards: {bool(regs)}; a path from the replacement to the exit loses an existing close: {lost}"
         ctx.ob("R5.6", f"make_sequence: `{norm(rp.ast)}` keeps the consumed iterable's close", ok, fact, ms, rp.ast, f"make_sequence keeps close {norm(rp.ast)}")
-
 
 
 # =====================================================================
@@ -1352,30 +2882,84 @@ STR_METHODS = {"strip", "lstrip", "rstrip", "upper", "lower", "title", "capitali
 INT_CLASSES = {"int", "HTTPStatus", "IntEnum"}
 
 
-def _typed(F: Fn, at, e: ast.AST | None, want: str, depth: int = 0) -> tuple[bool, str]:
-    """e is a `want` ('str' or 'int') on every path, judged by construction."""
-    if e is None or depth > 6:
+def _typed(F: Fn, at, e: ast.AST | None, want: str, depth: int = 0, maybe_none: bool = False, elem: int | None = None) -> tuple[bool, str]:
+    """e is a `want` ('str' or 'int') on every path, judged by construction.  maybe_none: a None among the possible values
+    is fine (the use is guarded by an `is not None` test on the local it went through); elem: e is a tuple (or a call that
+    returns tuples) and item `elem` of it is meant."""
+    if e is None or depth > 10:
         return False, "unknown value"
+    if elem is not None:
+        if isinstance(e, ast.Tuple) and elem < len(e.elts) and not any(isinstance(x, ast.Starred) for x in e.elts):
+            return _typed(F, at, e.elts[elem], want, depth + 1, maybe_none)
+        if isinstance(e, ast.Name):
+            bs = bindings(F, at, e)
+            if bs and all(b.kind == "value" and b.path == () and b.node is not None for b in bs):
+                whys = set()
+                for b in bs:
+                    ok, why = _typed(F, b.node, b.expr, want, depth + 1, maybe_none, elem)
+                    if not ok:
+                        return False, why
+                    whys.add(why)
+                return True, " | ".join(sorted(whys))
+        if not isinstance(e, ast.Call):
+            return False, f"item {elem} of `{norm(e)[:40]}` is not known"
+    if isinstance(e, ast.Constant) and e.value is None and maybe_none:
+        return True, "None (excluded by the guard at the use)"
     if isinstance(e, ast.Constant):
         ok = (isinstance(e.value, str) if want == "str" else isinstance(e.value, int) and not isinstance(e.value, bool))
         return ok, f"constant {e.value!r}"
     if want == "str" and isinstance(e, ast.JoinedStr):
         return True, "f-string"
-    if isinstance(e, ast.Call) and isinstance(e.func, ast.Name) and e.func.id == want and e.args:
+    if elem is None and isinstance(e, ast.Call) and isinstance(e.func, ast.Name) and e.func.id == want and e.args:
         return True, f"{want}(..)"
     if want == "str" and isinstance(e, ast.Call) and isinstance(e.func, ast.Attribute) and e.func.attr in STR_METHODS:
         return True, f".{e.func.attr}() result"
     if want == "str" and isinstance(e, ast.BinOp) and isinstance(e.op, (ast.Add, ast.Mod)):
         a = _typed(F, at, e.left, "str", depth + 1)
         return a[0], f"str expression ({a[1]})"
+    if isinstance(e, ast.IfExp):
+        a = _typed(F, at, e.body, want, depth + 1, maybe_none)
+        b = _typed(F, at, e.orelse, want, depth + 1, maybe_none)
+        return a[0] and b[0], f"{a[1]} / {b[1]}"
+    if isinstance(e, ast.Call) and norm(e.func).endswith("cast") and len(e.args) == 2:
+        return _typed(F, at, e.args[1], want, depth + 1, maybe_none, elem)
+    if isinstance(e, ast.Call):
+        # one level of helper extraction: every return of the package function that is called is a `want`
+        callee = callee_of(F, e)
+        if callee is not None and callee is not F.fi:
+            _saw(callee)
+            Fc = fn_of(F.repo, callee)
+            rets = astq.returns_of(callee.node)
+            if not rets or any(isinstance(x, (ast.Yield, ast.YieldFrom)) for x in walk_no_nested(callee.node)):
+                return False, f"{callee.qualname} returns nothing"
+            whys = set()
+            for r in rets:
+                ok, why = _typed(Fc, Fc.node(r), r.value, want, depth + 2, maybe_none, elem)
+                if not ok:
+                    return False, f"{callee.qualname}: `{norm(r)}`: {why}"
+                whys.add(why)
+            return True, f"{callee.qualname}() -> " + " | ".join(sorted(whys))
     if isinstance(e, ast.Name):
         bs = bindings(F, at, e)
         if not bs:
             return False, f"`{e.id}` has no local binding"
         whys = set()
+        # a use that is reached only where the local is known not to be None tolerates None among its sources
+        guarded = maybe_none
+        for tn, lab in F.cfg.guards(at):
+            if tn.kind == "test" and isinstance(tn.ast, ast.Compare):
+                nt = none_test(tn.ast)
+                if nt is not None and astq.is_name(nt[0], e.id) and nt[1] == lab and same_binding(F, tn, at, e.id):
+                    guarded = True
         for b in bs:
             if b.kind == "value" and b.path == () and b.node is not None:
-                ok, why = _typed(F, b.node, b.expr, want, depth + 1)
+                ok, why = _typed(F, b.node, b.expr, want, depth + 1, guarded)
+                if not ok:
+                    return False, f"`{e.id}` <- {why}"
+                whys.add(why)
+            elif b.kind == "value" and len(b.path) == 1 and b.node is not None:
+                # unpacked from a tuple: item b.path[0] of the pair a helper returns
+                ok, why = _typed(F, b.node, b.expr, want, depth + 1, guarded, b.path[0])
                 if not ok:
                     return False, f"`{e.id}` <- {why}"
                 whys.add(why)
@@ -1391,50 +2975,144 @@ def _typed(F: Fn, at, e: ast.AST | None, want: str, depth: int = 0) -> tuple[boo
                             safe.append((t, "T"))
                 rebinds = [d.node for d in F.rd.reaching(at, e.id) if d.node is not None]
                 if at.id in F.cfg.reach(avoid_nodes=rebinds, avoid_edges=safe):
-                    return False, f"the raw parameter `{e.id}` reaches this point without an isinstance test that excludes int"
-                whys.add("parameter, not an int")
+                    ok, why = _param_from_callers(F, e.id, lambda Fo, cn, a, d_: _typed(Fo, cn, a, "str", d_), depth)
+                    if not ok:
+                        return False, f"the raw parameter `{e.id}` reaches this point without an isinstance test that excludes int ({why})"
+                    whys.add(f"parameter, a str at every caller ({why})")
+                else:
+                    whys.add("parameter, not an int")
+            elif b.kind == "param" and want == "int":
+                ok, why = _param_from_callers(F, e.id, lambda Fo, cn, a, d_: _typed(Fo, cn, a, "int", d_), depth)
+                if not ok:
+                    return False, why
+                whys.add(f"parameter, an int at every caller ({why})")
             else:
                 return False, f"`{e.id}` is bound to `{norm(b.expr) if b.expr is not None else b.kind}` (position {b.path})"
         return True, " | ".join(sorted(whys))
     return False, f"`{norm(e)[:50]}` is not a {want} by construction"
 
 
+def _element_of_call(F: Fn, at, e: ast.AST | None, meth: str, index: int, depth: int = 0) -> bool:
+    """e is element `index` of the tuple returned by self.<meth>(..): `self.m(..)[i]`, `pair[i]`, or a local bound by
+    unpacking the call (directly or through a local holding the pair)."""
+    if e is None or depth > 4:
+        return False
+
+    def whole(at_, x: ast.AST | None, d: int = 0) -> bool:
+        if _self_call(x, meth):
+            return True
+        if isinstance(x, ast.Name) and d < 4:
+            bs = bindings(F, at_, x)
+            return bool(bs) and all(b.kind == "value" and b.path == () and b.node is not None and whole(b.node, b.expr, d + 1) for b in bs)
+        return False
+
+    if isinstance(e, ast.Subscript) and isinstance(e.slice, ast.Constant) and e.slice.value in (index, index - 2):
+        return whole(at, e.value)
+    if isinstance(e, ast.Name):
+        bs = bindings(F, at, e)
+        if not bs:
+            return False
+        for b in bs:
+            if b.kind == "param":
+                ok, _ = _param_from_callers(F, e.id, lambda Fo, cn, a, d_: (_element_of_call(Fo, cn, a, meth, index, d_), "not that element"), depth)
+                if ok:
+                    continue
+                return False
+            if b.kind != "value" or b.node is None:
+                return False
+            if b.path == (index,) and whole(b.node, b.expr):
+                continue
+            if b.path == () and _element_of_call(F, b.node, b.expr, meth, index, depth + 1):
+                continue
+            return False
+        return True
+    return False
+
+
+def _accessor(repo, cls: ClassInfo, name: str, which: str = "get") -> FuncInfo | None:
+    """getter / setter of a property, whether it is written with decorators or as `name = property(fget, fset)`."""
+    owner, what = repo.lookup(cls, name if which == "get" else f"{name}.setter")
+    if isinstance(what, FuncInfo):
+        return what
+    owner, what = repo.lookup(cls, name)
+    if isinstance(what, ast.Call) and isinstance(what.func, ast.Name) and what.func.id == "property" and isinstance(owner, ClassInfo):
+        a = astq.arg_or_kw(what, 0 if which == "get" else 1, "fget" if which == "get" else "fset")
+        if isinstance(a, ast.Name):
+            f = owner.methods.get(a.id)
+            return f if isinstance(f, FuncInfo) else None
+    return None
+
+
+def _status_cleaner(ctx: Ctx, resp: ClassInfo) -> str:
+    """name of the method that normalises a status: `_clean_status`; should that private name be gone, the one method
+    of self that the `status` setter calls with its argument."""
+    repo = ctx.repo
+    _, what = repo.lookup(resp, "_clean_status")
+    if isinstance(what, FuncInfo):
+        return "_clean_status"
+    setter = _accessor(repo, resp, "status", "set")
+    if isinstance(setter, FuncInfo) and len(setter.params) > 1:
+        names = {c.func.attr for c in astq.calls(setter.node, nested=False) if isinstance(c.func, ast.Attribute) and astq.is_name(c.func.value, "self") and any(astq.is_name(a, setter.params[1]) for a in c.args)}
+        if len(names) == 1:
+            return names.pop()
+    return "_clean_status"
+
+
 def _r57(ctx: Ctx) -> None:
     repo = ctx.repo
     resp = _resp(ctx)
-    cs = method(repo, resp, "_clean_status")
+    cleaner = _status_cleaner(ctx, resp)
+    cs = method(repo, resp, cleaner)
     F = fn_of(repo, cs)
     rets = astq.returns_of(cs.node)
-    ctx.floor("R5.7", "returns of _clean_status", len(rets), 3)
-    for r in rets:
-        rn = F.node(r)
-        v = r.value
-        if not (isinstance(v, ast.Tuple) and len(v.elts) == 2):
-            ctx.ob("R5.7", f"_clean_status: `{norm(r)}` is a (str, int) pair", False, "not a 2-tuple", cs, r, f"status return {norm(r)}")
-            continue
-        a = _typed(F, rn, v.elts[0], "str")
-        b = _typed(F, rn, v.elts[1], "int")
-        ctx.ob("R5.7", f"_clean_status: `{norm(r)}` is a (str, int) pair", a[0] and b[0], f"status line: {a[1]}; code: {b[1]}", cs, r, f"status return {norm(r)}")
+    ctx.floor("R5.7", "returns of _clean_status", len(rets), 1)  # 3 today; a single-exit rewrite has one
+    def pairs(Fx: Fn, depth: int = 0) -> None:
+        fx = Fx.fi
+        for r in astq.returns_of(fx.node):
+            for v, rn in _expansions(Fx, Fx.node(r), r.value):
+                callee = callee_of(Fx, v) if isinstance(v, ast.Call) and depth < 2 else None
+                if callee is not None and callee is not fx and astq.returns_of(callee.node):
+                    ctx.saw(callee)
+                    pairs(fn_of(repo, callee), depth + 1)  # the pair is built by a helper
+                    continue
+                if not (isinstance(v, ast.Tuple) and len(v.elts) == 2):
+                    ctx.ob("R5.7", f"{fx.name}: `{norm(r)}` is a (str, int) pair", False, f"`{norm(v) if v is not None else None}` is not a 2-tuple", fx, r, f"status return {norm(r)}")
+                    continue
+                a = _typed(Fx, rn, v.elts[0], "str")
+                b = _typed(Fx, rn, v.elts[1], "int")
+                ctx.ob("R5.7", f"{fx.name}: `{norm(r)}` is a (str, int) pair", a[0] and b[0], f"`{norm(v)}`: status line: {a[1]}; code: {b[1]}", fx, r, f"status return {norm(v)}")
+
+    pairs(F)
     if cs.params[1:]:
         p = cs.params[1]
         its = [(t, isinstance_atom(t.ast)) for t in F.cfg.tests() if t.kind == "test" and isinstance_atom(t.ast) and astq.is_name(isinstance_atom(t.ast)[0], p)]
         its = [(t, ia) for t, ia in its if ia and "int" in ia[1]]
-        ok = len(its) == 1
+        ok = len(its) >= 1
         fact = f"{len(its)} isinstance test(s) of `{p}` against int"
         if ok:
-            t = its[0][0]
             # under the int-like edge no return hands back the argument unconverted, and no string method is applied to it
             bad = []
-            for n in F.cfg.nodes:
-                if n.ast is None or not F.cfg.edge_dominates(t, "T", n) or n is t:
-                    continue
-                for x in [n.ast, *walk_no_nested(n.ast)]:
-                    if isinstance(x, ast.Attribute) and astq.is_name(x.value, p):
-                        bad.append(norm(x))
+            for tn, _ in its:
+                for n in F.cfg.nodes:
+                    if n.ast is None or not F.cfg.edge_dominates(tn, "T", n) or n is tn:
+                        continue
+                    for x in [n.ast, *walk_no_nested(n.ast)]:
+                        if isinstance(x, ast.Attribute) and astq.is_name(x.value, p):
+                            bad.append(norm(x))
             ok = not bad
-            fact = f"`{norm(t.ast)}`: int and HTTPStatus (an IntEnum) take the true edge; str-only operations on `{p}` under it: {bad}"
+            fact = f"`{'`, `'.join(norm(tn.ast) for tn, _ in its)}`: int and HTTPStatus (an IntEnum) take the true edge; str-only operations on `{p}` under it: {bad}"
         ctx.ob("R5.7", "_clean_status sends int-like statuses through the integer branch", ok, fact, cs, its[0][0].ast if its else cs.node, "int-like branch")
     # the stored status comes only from _clean_status
+    def getter_attr(name: str, default: str) -> str:
+        """the private attribute a property getter hands out (`return self._status`)."""
+        g = _accessor(repo, resp, name, "get")
+        if isinstance(g, FuncInfo):
+            got = {r.value.attr for r in astq.returns_of(g.node) if isinstance(r.value, ast.Attribute) and astq.is_name(r.value.value, "self")}
+            if len(got) == 1 and len(astq.returns_of(g.node)) == 1:
+                return got.pop()
+        return default
+
+    a_line, a_code = getter_attr("status", "_status"), getter_attr("status_code", "_status_code")
     n_st = 0
     seen = set()
     for k in repo.mro(resp):
@@ -1453,13 +3131,19 @@ def _r57(ctx: Ctx) -> None:
                     if isinstance(tg, (ast.Tuple, ast.List)):
                         flat += [(x, i) for i, x in enumerate(tg.elts)]
                 for x, idx in flat:
-                    for attr, want in (("_status", 0), ("_status_code", 1)):
+                    for attr, want in ((a_line, 0), (a_code, 1)):
                         if is_self_attr(x, attr):
                             n_st += 1
                             val = getattr(n, "value", None)
-                            ok = idx == want and _self_call(val, "_clean_status")
-                            ctx.ob("R5.7", f"{fi.qualname}: self.{attr} is element {want} of _clean_status(..)", ok, f"`{norm(n)}`", fi, n, f"status store {attr} in {fi.qualname}: {norm(n)}")
+                            ok = idx == want and _self_call(val, cleaner)
+                            if idx is None and not isinstance(n, ast.AugAssign):
+                                # the pair taken apart in two steps: a local bound by unpacking, or an indexed element
+                                Fs_ = fn_of(repo, fi)
+                                ok = _element_of_call(Fs_, Fs_.node(n), val, cleaner, want)
+                            ctx.ob("R5.7", f"{fi.qualname}: self.{attr} is element {want} of _clean_status(..)", ok, f"`{norm(n)}`", fi, n, f"status store {'_status' if want == 0 else '_status_code'} in {fi.qualname}: {norm(n)}")
     ctx.floor("R5.7", "stores of _status / _status_code", n_st, 2)
-    sg = method(repo, resp, "status")
+    sg = _accessor(repo, resp, "status", "get")
+    if sg is None:
+        raise AnalysisError("Response.status: the getter of the property was not found (slot)")
     rets = astq.returns_of(sg.node)
-    ctx.ob("R5.7", "Response.status is the stored status line", bool(rets) and all(is_self_attr(r.value, "_status") for r in rets), f"returns {[norm(r.value) for r in rets if r.value is not None]}", sg, sg.node, "status getter")
+    ctx.ob("R5.7", "Response.status is the stored status line", bool(rets) and all(is_self_attr(r.value, a_line) for r in rets) and a_line != a_code, f"returns {[norm(r.value) for r in rets if r.value is not None]}", sg, sg.node, "status getter")
